@@ -4,7 +4,11 @@
    call / if-then / if-then-else may be left that way, handlers may nest.  Proved as before: the reference semantics
    computes the outcome (ref_runs_z) and the VM model, on the compiled code, marks the scope as finished, runs the handler
    as a new frame, completes it, completes the abandoned scope with the handler's value and drops everything the scope still
-   held (vm_runs_z: ScopeEnds). *)
+   held (vm_runs_z: ScopeEnds).
+   Later parts of the same relation: loops, lazy operators, namespaces, try-catch-throw (zthrow), scopeName / breakOut (zbreak), switch
+   (zswitch), and LEAVING A LOOP: a round of forEach / count / apply / select / findIf / for / while left by a throw or by breakOut to a
+   scope outside the loop (zloopleave / zileave / zfleave / zwleave with the kind of exit `abr`; machine side Leaves0 / LeavesL) or to
+   the name of the round's own scope (ZIterBreak, ZForBreak, ZWhileBreakCond, ZWhileBreakBody). *)
 From Coq Require Import String Ascii.
 From Coq Require Import ZArith List Bool Lia.
 From SqfVerif Require Import Gen.DiagCodes Gen.Overloads VM.VmDefs VM.VmExec VM.RefSem VM.C02Proofs VM.SimDefs VM.SimProofs VM.SimBlock VM.SimCtl VM.SimThrowOps VM.SimBreakOps VM.SimSwitchOps.
@@ -15,6 +19,9 @@ Local Open Scope list_scope.
 Inductive bout := BNorm (reg:rvalue) | BExit (v:rvalue).
 Definition val_of (o:bout) : rvalue := match o with BNorm reg => res_of reg | BExit v => v end.
 Definition oc (o:bout) : outcome := match o with BNorm reg => ONormal reg | BExit v => OExit v end.
+(* the two ways a loop is left that reach beyond it: a throw (to a handler outside the loop), breakOut to a scope outside the loop *)
+Inductive abr := AThrow (x:rvalue) | ABreak (t:string) (v:rvalue).
+Definition oa (a:abr) : outcome := match a with AThrow x => OThrow x | ABreak t v => OBreak t v end.
 
 Inductive lkind := KForEach | KCount | KApply | KSelect | KFindIf.
 Definition kvars (k:lkind) (i:nat) (x:rvalue) : list (string*rvalue) :=
@@ -236,6 +243,10 @@ with ziter : lkind -> sstate -> list rvalue -> nat -> list stmt -> rvalue -> rva
 | ZIterExit k s x rest i body acc v s1 :
     zblock (enter s (kvars k i x)) (match i with O => RNil | _ => RNone end) body (BExit v) s1 ->
     ziter k s (x :: rest) i body acc v (pop_scope s1)
+(* breakOut to the name the scope of the round itself carries (scopeName in the body): the whole loop ends with the value *)
+| ZIterBreak k s x rest i body acc t v s1 :
+    zbreak (enter s (kvars k i x)) (match i with O => RNil | _ => RNone end) body t v s1 -> top_name s1 = t ->
+    ziter k s (x :: rest) i body acc v (pop_scope s1)
 (* the rounds of a for loop from the value x of the loop variable on *)
 with zfor : string -> Z -> Z -> sstate -> Z -> bool -> list stmt -> rvalue -> sstate -> Prop :=
 | ZForRound var to st s x (first:bool) body reg s1 y acc' s' :
@@ -248,6 +259,9 @@ with zfor : string -> Z -> Z -> sstate -> Z -> bool -> list stmt -> rvalue -> ss
     zfor var to st s x first body (res_of reg) (pop_scope s1)
 | ZForExit var to st s x (first:bool) body v s1 :
     zblock (enter s [(lower var, RNum x)]) (if first then RNil else RNone) body (BExit v) s1 ->
+    zfor var to st s x first body v (pop_scope s1)
+| ZForBreak var to st s x (first:bool) body t v s1 :
+    zbreak (enter s [(lower var, RNum x)]) (if first then RNil else RNone) body t v s1 -> top_name s1 = t ->
     zfor var to st s x first body v (pop_scope s1)
 (* the rounds of a while loop: the condition and the body run in one scope that is emptied before each of them; the loop
    yields nil, or the value an exitWith in the condition or the body leaves it with *)
@@ -263,6 +277,11 @@ with zwhile : list stmt -> list stmt -> sstate -> bool -> rvalue -> sstate -> Pr
 | ZWhileExitBody cond body s (first:bool) s1 v s2 :
     zblock (enter s []) (if first then RNil else RNone) cond (BNorm (RBool true)) s1 ->
     zblock (set_top_vars s1 []) RNone body (BExit v) s2 -> zwhile cond body s first v (pop_scope s2)
+| ZWhileBreakCond cond body s (first:bool) t v s1 :
+    zbreak (enter s []) (if first then RNil else RNone) cond t v s1 -> top_name s1 = t -> zwhile cond body s first v (pop_scope s1)
+| ZWhileBreakBody cond body s (first:bool) s1 t v s2 :
+    zblock (enter s []) (if first then RNil else RNone) cond (BNorm (RBool true)) s1 ->
+    zbreak (set_top_vars s1 []) RNone body t v s2 -> top_name s2 = t -> zwhile cond body s first v (pop_scope s2)
 (* a block that is left by a throw: the statements in front of the throwing one run normally; the throwing statement is `throw v`,
    `if c throw v`, or a scope construct standing as a statement - call, if-then(-else), a try-catch whose handler throws - whose
    block is left by a throw; the state is the one at the throw, with the scopes between the throw and this block closed *)
@@ -281,6 +300,8 @@ with zthrow : sstate -> rvalue -> list stmt -> rvalue -> sstate -> Prop :=
 | ZTHandler s reg n a b body h s1 s2 x s3 y s4 rest : lower n = "catch" -> zev s a (RTry body) s1 -> zev s1 b (RCode h) s2 ->
     zthrow (enter s2 []) RNil body x s3 -> zthrow (set_top_vars s3 [("_exception", x)]) RNil h y s4 ->
     zthrow s reg (SExpr (EBinary n a b) :: rest) y (pop_scope s4)
+(* a loop standing as a statement, one of whose rounds is left by a throw (relation zloopleave below) *)
+| ZTLoop s reg e y s3 rest : zloopleave s e (AThrow y) s3 -> zthrow s reg (SExpr e :: rest) y s3
 (* a block that is left by breakOut to the scope named t, with value v (nil for the unary form): statements that run normally, then
    `breakOut "t"`, `v breakOut "t"`, or a scope construct standing as a statement - call, if-then(-else) - whose own scope is not
    named t and whose block is left that way; the state is the one at the breakOut, the scopes in between closed *)
@@ -296,7 +317,61 @@ with zbreak : sstate -> rvalue -> list stmt -> string -> rvalue -> sstate -> Pro
     zbreak (enter s2 []) RNil blk t v s3 -> top_name s3 <> t -> zbreak s reg (SExpr (EBinary n a b) :: rest) t v (pop_scope s3)
 | ZKThenElse s reg n a b c x0 y0 s1 s2 t v s3 rest : lower n = "then" -> zev s a (RIf c) s1 -> zev s1 b (RArr [RCode x0; RCode y0]) s2 ->
     zbreak (enter s2 []) RNil (if c then x0 else y0) t v s3 -> top_name s3 <> t ->
-    zbreak s reg (SExpr (EBinary n a b) :: rest) t v (pop_scope s3).
+    zbreak s reg (SExpr (EBinary n a b) :: rest) t v (pop_scope s3)
+(* a loop standing as a statement, one of whose rounds is left by breakOut to a scope outside the loop *)
+| ZKLoop s reg e t v s3 rest : zloopleave s e (ABreak t v) s3 -> zbreak s reg (SExpr e :: rest) t v s3
+(* LEAVING A LOOP.  A loop - forEach / count / apply / select / findIf, for, while - is left by a throw or by breakOut when, after
+   rounds that run normally, the body (for while: the condition or the body) of a round is left that way (zthrow / zbreak; for breakOut
+   the scope of the round is not the named one).  The state is the one at the exit with the scope of the round closed. *)
+with zloopleave : sstate -> expr -> abr -> sstate -> Prop :=
+| ZLLoopCA s n a x body x0 arr k s1 s2 ab s3 : kname k = lower n -> kca k = true -> leaf_first body ->
+    zev s a (RCode body) s1 -> zev s1 x (RArr (x0 :: arr)) s2 ->
+    zileave k s2 (x0 :: arr) 0 body (kinit k) ab s3 -> zloopleave s (EBinary n a x) ab s3
+| ZLLoopAC s n a x body x0 arr k s1 s2 ab s3 : kname k = lower n -> kca k = false -> leaf_first body ->
+    zev s a (RArr (x0 :: arr)) s1 -> zev s1 x (RCode body) s2 ->
+    zileave k s2 (x0 :: arr) 0 body (kinit k) ab s3 -> zloopleave s (EBinary n a x) ab s3
+| ZLFor s n a b var fr to st body s1 s2 ab s3 : lower n = "do" -> zev s a (RFor var fr to st) s1 -> zev s1 b (RCode body) s2 ->
+    for_empty fr to st = false -> leaf_first body -> zfleave var to st s2 fr true body ab s3 -> zloopleave s (EBinary n a b) ab s3
+| ZLWhile s n a b cond body s1 s2 ab s3 : lower n = "do" -> zev s a (RWhile cond) s1 -> zev s1 b (RCode body) s2 ->
+    leaf_first cond -> leaf_first body -> zwleave cond body s2 true ab s3 -> zloopleave s (EBinary n a b) ab s3
+with zileave : lkind -> sstate -> list rvalue -> nat -> list stmt -> rvalue -> abr -> sstate -> Prop :=
+| ZILCons k s x rest i body acc reg s1 acc1 ab s' :
+    zblock (enter s (kvars k i x)) (match i with O => RNil | _ => RNone end) body (BNorm reg) s1 ->
+    kstep k x i reg acc = Some (true, acc1) -> kok k reg ->
+    zileave k (pop_scope s1) rest (S i) body acc1 ab s' -> zileave k s (x :: rest) i body acc ab s'
+| ZILThrow k s x rest i body acc y s1 :
+    zthrow (enter s (kvars k i x)) (match i with O => RNil | _ => RNone end) body y s1 ->
+    zileave k s (x :: rest) i body acc (AThrow y) (pop_scope s1)
+| ZILBreak k s x rest i body acc t v s1 :
+    zbreak (enter s (kvars k i x)) (match i with O => RNil | _ => RNone end) body t v s1 -> top_name s1 <> t ->
+    zileave k s (x :: rest) i body acc (ABreak t v) (pop_scope s1)
+with zfleave : string -> Z -> Z -> sstate -> Z -> bool -> list stmt -> abr -> sstate -> Prop :=
+| ZFLRound var to st s x (first:bool) body reg s1 y ab s' :
+    zblock (enter s [(lower var, RNum x)]) (if first then RNil else RNone) body (BNorm reg) s1 ->
+    hidden (lower var) = false -> top_var s1 (lower var) = Some (RNum y) -> beyond to st (y + st)%Z = false ->
+    zfleave var to st (pop_scope s1) (y + st)%Z false body ab s' -> zfleave var to st s x first body ab s'
+| ZFLThrow var to st s x (first:bool) body y s1 :
+    zthrow (enter s [(lower var, RNum x)]) (if first then RNil else RNone) body y s1 ->
+    zfleave var to st s x first body (AThrow y) (pop_scope s1)
+| ZFLBreak var to st s x (first:bool) body t v s1 :
+    zbreak (enter s [(lower var, RNum x)]) (if first then RNil else RNone) body t v s1 -> top_name s1 <> t ->
+    zfleave var to st s x first body (ABreak t v) (pop_scope s1)
+with zwleave : list stmt -> list stmt -> sstate -> bool -> abr -> sstate -> Prop :=
+| ZWLRound cond body s (first:bool) s1 reg s2 ab s' :
+    zblock (enter s []) (if first then RNil else RNone) cond (BNorm (RBool true)) s1 ->
+    zblock (set_top_vars s1 []) RNone body (BNorm reg) s2 ->
+    zwleave cond body (pop_scope s2) false ab s' -> zwleave cond body s first ab s'
+| ZWLThrowCond cond body s (first:bool) y s1 :
+    zthrow (enter s []) (if first then RNil else RNone) cond y s1 -> zwleave cond body s first (AThrow y) (pop_scope s1)
+| ZWLBreakCond cond body s (first:bool) t v s1 :
+    zbreak (enter s []) (if first then RNil else RNone) cond t v s1 -> top_name s1 <> t ->
+    zwleave cond body s first (ABreak t v) (pop_scope s1)
+| ZWLThrowBody cond body s (first:bool) s1 y s2 :
+    zblock (enter s []) (if first then RNil else RNone) cond (BNorm (RBool true)) s1 ->
+    zthrow (set_top_vars s1 []) RNone body y s2 -> zwleave cond body s first (AThrow y) (pop_scope s2)
+| ZWLBreakBody cond body s (first:bool) s1 t v s2 :
+    zblock (enter s []) (if first then RNil else RNone) cond (BNorm (RBool true)) s1 ->
+    zbreak (set_top_vars s1 []) RNone body t v s2 -> top_name s2 <> t -> zwleave cond body s first (ABreak t v) (pop_scope s2).
 
 Scheme zev_i := Induction for zev Sort Prop
   with zevs_i := Induction for zevs Sort Prop
@@ -306,11 +381,35 @@ Scheme zev_i := Induction for zev Sort Prop
   with zfor_i := Induction for zfor Sort Prop
   with zwhile_i := Induction for zwhile Sort Prop
   with zthrow_i := Induction for zthrow Sort Prop
-  with zbreak_i := Induction for zbreak Sort Prop.
-Combined Scheme z_ind from zev_i, zevs_i, zstmt_i, zblock_i, ziter_i, zfor_i, zwhile_i, zthrow_i, zbreak_i.
+  with zbreak_i := Induction for zbreak Sort Prop
+  with zloopleave_i := Induction for zloopleave Sort Prop
+  with zileave_i := Induction for zileave Sort Prop
+  with zfleave_i := Induction for zfleave Sort Prop
+  with zwleave_i := Induction for zwleave Sort Prop.
+Combined Scheme z_ind from zev_i, zevs_i, zstmt_i, zblock_i, ziter_i, zfor_i, zwhile_i, zthrow_i, zbreak_i,
+  zloopleave_i, zileave_i, zfleave_i, zwleave_i.
 
+(* a breakOut that leaves a block names a scope and hands over a value (nil for the unary form) - also through loops *)
+Definition abr_ok (a:abr) : Prop := match a with AThrow _ => True | ABreak t v => t <> "" /\ v <> RNone end.
+Lemma zexit_facts :
+  (forall s e v s', zev s e v s' -> True) /\ (forall s l vs s', zevs s l vs s' -> True) /\
+  (forall s reg st reg1 s1, zstmt s reg st reg1 s1 -> True) /\ (forall s reg b out s', zblock s reg b out s' -> True) /\
+  (forall k s arr i body acc acc' s', ziter k s arr i body acc acc' s' -> True) /\
+  (forall var to st s x first body acc s', zfor var to st s x first body acc s' -> True) /\
+  (forall cond body s first v s', zwhile cond body s first v s' -> True) /\
+  (forall s reg b x s', zthrow s reg b x s' -> True) /\
+  (forall s reg b t v s', zbreak s reg b t v s' -> t <> "" /\ v <> RNone) /\
+  (forall s e a s', zloopleave s e a s' -> abr_ok a) /\
+  (forall k s arr i body acc a s', zileave k s arr i body acc a s' -> abr_ok a) /\
+  (forall var to st s x first body a s', zfleave var to st s x first body a s' -> abr_ok a) /\
+  (forall cond body s first a s', zwleave cond body s first a s' -> abr_ok a).
+Proof.
+  apply z_ind; intros; try exact I; try assumption; try (cbn [abr_ok] in *; assumption).
+  - (* breakOut "t" *) split; [assumption|discriminate].
+  - (* v breakOut "t" *) split; [assumption|match goal with H : nonnil _ |- _ => exact (proj2 H) end].
+Qed.
 Lemma zbreak_facts s reg b t v s' : zbreak s reg b t v s' -> t <> "" /\ v <> RNone.
-Proof. induction 1; try assumption; split; try assumption; try discriminate. match goal with H : nonnil _ |- _ => exact (proj2 H) end. Qed.
+Proof. exact (proj1 (proj2 (proj2 (proj2 (proj2 (proj2 (proj2 (proj2 (proj2 zexit_facts)))))))) s reg b t v s'). Qed.
 
 Lemma zblock_val s reg b out s' : zblock s reg b out s' -> val_of out <> RNone.
 Proof. induction 1; cbn [val_of]; try assumption; match goal with |- res_of ?r <> _ => destruct r; discriminate end. Qed.
@@ -325,21 +424,24 @@ Proof.
 Qed.
 Lemma ziter_val k s arr i body acc acc' s' : ziter k s arr i body acc acc' s' -> acc <> RNone -> acc' <> RNone.
 Proof.
-  induction 1; intros N; [exact N| | |].
+  induction 1; intros N; [exact N| | | |].
   - apply IHziter. eapply kstep_not_none; eassumption.
   - eapply kstep_not_none; eassumption.
   - match goal with H : zblock _ _ _ (BExit _) _ |- _ => exact (zblock_val _ _ _ _ _ H) end.
+  - match goal with H : zbreak _ _ _ _ _ _ |- _ => exact (proj2 (zbreak_facts _ _ _ _ _ _ H)) end.
 Qed.
 
 Lemma zfor_val var to st s x first body acc s' : zfor var to st s x first body acc s' -> acc <> RNone.
 Proof.
-  induction 1; [assumption|destruct reg; discriminate|].
-  match goal with H : zblock _ _ _ (BExit _) _ |- _ => exact (zblock_val _ _ _ _ _ H) end.
+  induction 1; [assumption|destruct reg; discriminate| |].
+  - match goal with H : zblock _ _ _ (BExit _) _ |- _ => exact (zblock_val _ _ _ _ _ H) end.
+  - match goal with H : zbreak _ _ _ _ _ _ |- _ => exact (proj2 (zbreak_facts _ _ _ _ _ _ H)) end.
 Qed.
 
 Lemma zwhile_val cond body s first v s' : zwhile cond body s first v s' -> v <> RNone.
 Proof.
   induction 1; try discriminate; try assumption;
+    try (match goal with H : zbreak _ _ _ _ ?v _ |- ?v <> _ => exact (proj2 (zbreak_facts _ _ _ _ _ _ H)) end);
     match goal with H : zblock _ _ _ (BExit ?v) _ |- ?v <> _ => exact (zblock_val _ _ _ _ _ H) end.
 Qed.
 
@@ -1741,6 +1843,456 @@ Proof.
   unfold cur_ns_of. rewrite <- E1. exact NS.
 Qed.
 
+(* ---------------------------------------------------------------- leaving a loop by a throw or by breakOut *)
+(* what the machine does when the code of the running frame f is left by a throw / by breakOut "t" (the conclusions of ThrowRuns and
+   BreakRuns, as one predicate over the kind of exit); s' is the reference state at the exit, the scopes down to f's closed *)
+Definition Leaves0 (a:abr) (s':sstate) (r:rt) (f:frame) (restf:list frame) (below:list value) : Prop :=
+  match a with
+  | AThrow x => forall inner ft rest h jn below_t,
+      f :: restf = inner ++ ft :: rest -> Forall (fun m => f_err m = None) inner -> f_err ft = Some (ECatch h) ->
+      below = jn ++ below_t -> under jn -> length below_t = f_base ft ->
+      exists r' c' rest' ft0, Steps r r' /\ Forall2 kept rest rest' /\ moved ft ft0 /\
+        Caught (set_top_vars (drop_scopes (length inner) s') [("_exception", x)]) r' c' (handler_frame ft0 h (cv x)) rest' below_t
+  | ABreak t v => forall k top fn fc rest jn below_n,
+      find_name t (st_scopes s') 0 = Some k ->
+      f :: restf = top ++ fn :: fc :: rest -> length top = k ->
+      Forall (fun m => f_base fn <= f_base m) top -> f_base fc <= f_base fn ->
+      below = jn ++ below_n -> length below_n = f_base fn ->
+      exists r' c' fc' rest', Steps r r' /\ Mach (drop_scopes (S k) s') r' c' fc' rest' /\ c_values c' = cv v :: below_n /\
+        kept fc fc' /\ Forall2 kept rest rest'
+  end.
+(* the same for a LOOP frame f at the start of a round: the handler's frame / the named frame lies below f (restf), and s' is the
+   reference state with the scope of the loop closed as well; the loop frame and its part of the operand stack are gone *)
+Definition LeavesL (a:abr) (s':sstate) (r:rt) (f:frame) (restf:list frame) (below:list value) : Prop :=
+  match a with
+  | AThrow x => forall inner ft rest h jn below_t,
+      restf = inner ++ ft :: rest -> f_err f = None -> Forall (fun m => f_err m = None) inner -> f_err ft = Some (ECatch h) ->
+      below = jn ++ below_t -> under jn -> length below_t = f_base ft ->
+      exists r' c' rest' ft0, Steps r r' /\ r' <> r /\ Forall2 kept rest rest' /\ moved ft ft0 /\
+        Caught (set_top_vars (drop_scopes (length inner) s') [("_exception", x)]) r' c' (handler_frame ft0 h (cv x)) rest' below_t
+  | ABreak t v => forall k top fn fc rest jn below_n,
+      find_name t (st_scopes s') 0 = Some k ->
+      restf = top ++ fn :: fc :: rest -> length top = k ->
+      f_base fn <= f_base f -> Forall (fun m => f_base fn <= f_base m) top -> f_base fc <= f_base fn ->
+      below = jn ++ below_n -> length below_n = f_base fn ->
+      exists r' c' fc' rest', Steps r r' /\ r' <> r /\ Mach (drop_scopes (S k) s') r' c' fc' rest' /\ c_values c' = cv v :: below_n /\
+        kept fc fc' /\ Forall2 kept rest rest'
+  end.
+
+Lemma chain_keptL restf inner ft rest rest1 h :
+  restf = inner ++ ft :: rest -> Forall (fun m => f_err m = None) inner -> f_err ft = Some (ECatch h) ->
+  Forall2 kept restf rest1 ->
+  exists inner1 ft1 rest1', rest1 = inner1 ++ ft1 :: rest1' /\ Forall (fun m => f_err m = None) inner1 /\
+    f_err ft1 = Some (ECatch h) /\ kept ft ft1 /\ length inner1 = length inner /\ Forall2 kept rest rest1' /\ f_base ft1 = f_base ft.
+Proof.
+  intros -> HF HE K. destruct (Forall2_app_inv_l _ _ K) as (i1 & l2 & K1 & K2 & ->).
+  inversion K2 as [|? ft1 ? r1' Kt Kr]; subst.
+  exists i1, ft1, r1'. split; [reflexivity|]. split; [exact (kept_all_err _ _ K1 HF)|].
+  split; [rewrite (kept_err _ _ Kt); exact HE|]. split; [exact Kt|]. split; [apply (forall2_length _ _ _ K1)|].
+  split; [exact Kr|apply (kept_base _ _ Kt)].
+Qed.
+Lemma chain_keptLb restf top fn fc rest rest1 :
+  restf = top ++ fn :: fc :: rest -> Forall2 kept restf rest1 -> Forall (fun m => f_base fn <= f_base m) top ->
+  exists top1 fn1 fc1 rest1', rest1 = top1 ++ fn1 :: fc1 :: rest1' /\ length top1 = length top /\
+    Forall (fun m => f_base fn1 <= f_base m) top1 /\ f_base fn1 = f_base fn /\ kept fc fc1 /\ Forall2 kept rest rest1'.
+Proof.
+  intros -> K HB. destruct (Forall2_app_inv_l _ _ K) as (i1 & l2 & K1 & K2 & ->).
+  inversion K2 as [|? fn1 ? l3 Kn K3]; subst. inversion K3 as [|? fc1 ? r1' Kc Kr]; subst.
+  exists i1, fn1, fc1, r1'. split; [reflexivity|]. split; [apply (forall2_length _ _ _ K1)|].
+  split; [|split; [apply (kept_base _ _ Kn)|split; assumption]].
+  clear - K1 HB Kn. induction K1 as [|a b l l' Kab _ IH]; [constructor|]. inversion HB; subst.
+  constructor; [rewrite (kept_base _ _ Kn), (kept_base _ _ Kab); assumption|apply IH; assumption].
+Qed.
+
+(* a loop that leaves in a later round leaves: the machine gets from r to the (virtual) state rV at the start of the next round,
+   from which every run that moves at all is a run from r *)
+Lemma leavesL_transfer a s' r c f fc frest rV fV fc1 frest1 below :
+  cur r = Some c -> c_frames c = f :: fc :: frest ->
+  (forall r', Steps rV r' -> r' <> rV -> Steps r r') ->
+  kept fc fc1 -> Forall2 kept frest frest1 -> f_err fV = f_err f -> f_base fV = f_base f ->
+  LeavesL a s' rV fV (fc1 :: frest1) below -> LeavesL a s' r f (fc :: frest) below.
+Proof.
+  intros C EF HS Ka Kb EE EBs H. destruct a as [x|t v]; cbn [LeavesL] in *.
+  - intros inner ft rest h jn below_t CH HE HF HErr EB UJ LBT.
+    destruct (chain_keptL (fc :: frest) inner ft rest (fc1 :: frest1) h CH HF HErr) as (inner1 & ft1 & rest1' & CH1 & HF1 & HE1 & Kt & LEN1 & KR1 & FB1).
+    { constructor; assumption. }
+    destruct (H inner1 ft1 rest1' h jn below_t CH1) as (r' & c' & rest' & ft0 & ST & N & K & MT & CA).
+    { rewrite EE; exact HE. } { exact HF1. } { exact HE1. } { exact EB. } { exact UJ. } { rewrite FB1; exact LBT. }
+    exists r', c', rest', ft0. split; [apply HS; assumption|]. split.
+    { pose proof CA as ((C' & _) & _ & EF' & _). eapply neq_by_frames; [exact C|exact C'|].
+      assert (L : length (fc :: frest) = length inner + S (length rest)) by (rewrite CH, app_length; reflexivity).
+      rewrite EF', EF. cbn [length] in *. rewrite (forall2_length _ _ _ K), (forall2_length _ _ _ KR1). lia. }
+    split; [eapply kept_all_trans; eassumption|]. split; [eapply moved_trans; [apply kept_moved; exact Kt|exact MT]|].
+    rewrite LEN1 in CA. exact CA.
+  - intros k top fn fc0 rest jn below_n FN CH LT HBf0 HB HC EB LBN.
+    destruct (chain_keptLb (fc :: frest) top fn fc0 rest (fc1 :: frest1) CH) as (top1 & fn1 & fc01 & rest1' & CH1 & LT1 & HB1 & FB1 & KC1 & KR1).
+    { constructor; assumption. } { exact HB. }
+    destruct (H k top1 fn1 fc01 rest1' jn below_n FN CH1) as (r' & c' & fc' & rest' & ST & N & M & EV & K & KR).
+    { rewrite LT1; exact LT. } { rewrite FB1, EBs; exact HBf0. } { exact HB1. } { rewrite FB1, (kept_base _ _ KC1); exact HC. }
+    { exact EB. } { rewrite FB1; exact LBN. }
+    exists r', c', fc', rest'. split; [apply HS; assumption|]. split.
+    { pose proof M as ((C' & _) & EF' & _). eapply neq_by_frames; [exact C|exact C'|].
+      assert (L : length (fc :: frest) = length top + S (S (length rest))) by (rewrite CH, app_length; reflexivity).
+      rewrite EF', EF. cbn [length] in *. rewrite (forall2_length _ _ _ KR), (forall2_length _ _ _ KR1). lia. }
+    split; [exact M|]. split; [exact EV|]. split; [eapply kept_trans; eassumption|eapply kept_all_trans; eassumption].
+Qed.
+
+(* the round in which the body is left *)
+Lemma leavesL_throw s reg code y s1 r c f restf below :
+  ThrowRuns s reg code y s1 -> AtM s reg r c f restf below -> Fresh c below -> f_code f = code -> f_pos f = 0 ->
+  LeavesL (AThrow y) (pop_scope s1) r f restf below.
+Proof.
+  intros TR A FR EC EP. cbn [LeavesL]. intros inner ft rest h jn below_t CH HE HF HErr EB UJ LBT.
+  destruct (TR r c f restf below [] (f :: inner) ft rest h jn below_t A FR EC EP) as (r' & c' & rest' & ft0 & ST & K & MT & CA).
+  { cbn [app]. rewrite CH. reflexivity. } { constructor; assumption. } { exact HErr. } { exact EB. } { exact UJ. } { exact LBT. }
+  exists r', c', rest', ft0. split; [exact ST|]. split.
+  { destruct A as ((G0 & EF0 & _) & _). destruct G0 as (C0 & _). pose proof CA as ((C' & _) & _ & EF' & _).
+    eapply neq_by_frames; [exact C0|exact C'|].
+    assert (L : length restf = length inner + S (length rest)) by (rewrite CH, app_length; reflexivity).
+    rewrite EF', EF0. cbn [length] in *. rewrite (forall2_length _ _ _ K). lia. }
+  split; [exact K|]. split; [exact MT|]. cbn [length] in CA. rewrite drop_scopes_S in CA. exact CA.
+Qed.
+Lemma leavesL_break s reg code t v s1 r c f restf below :
+  BreakRuns s reg code t v s1 -> top_name s1 <> t -> AtM s reg r c f restf below -> Fresh c below -> f_code f = code -> f_pos f = 0 ->
+  LeavesL (ABreak t v) (pop_scope s1) r f restf below.
+Proof.
+  intros BR TN A FR EC EP. cbn [LeavesL]. intros k top fn fc rest jn below_n FN CH LT HBf HB HC EB LBN.
+  destruct (BR r c f restf below [] (S k) (f :: top) fn fc rest jn below_n A FR EC EP) as (r' & c' & fc' & rest' & ST & M & EV & K & KR).
+  { apply find_name_pop; assumption. } { cbn [app]. rewrite CH. reflexivity. } { cbn [length]. rewrite LT. reflexivity. }
+  { constructor; assumption. } { exact HC. } { exact EB. } { exact LBN. }
+  exists r', c', fc', rest'. split; [exact ST|]. split.
+  { destruct A as ((G0 & EF0 & _) & _). destruct G0 as (C0 & _). pose proof M as ((C' & _) & EF' & _).
+    eapply neq_by_frames; [exact C0|exact C'|].
+    assert (L : length restf = length top + S (S (length rest))) by (rewrite CH, app_length; reflexivity).
+    rewrite EF', EF0. cbn [length] in *. rewrite (forall2_length _ _ _ KR). lia. }
+  split; [rewrite <- drop_scopes_S; exact M|]. split; [exact EV|]. split; assumption.
+Qed.
+
+(* breakOut to the name the loop frame's own scope carries: the loop frame is the named one, the loop is over with the value *)
+Lemma own_break s reg code t v s1 r c f fc frest below :
+  BreakRuns s reg code t v s1 -> t <> "" -> top_name s1 = t -> AtM s reg r c f (fc :: frest) below -> Fresh c below ->
+  f_code f = code -> f_pos f = 0 -> f_base fc <= length below ->
+  exists r' c' fc' rest', Steps r r' /\ r' <> r /\ Mach (pop_scope s1) r' c' fc' rest' /\ c_values c' = cv v :: below /\
+    kept fc fc' /\ Forall2 kept frest rest'.
+Proof.
+  intros BR NT TN A FR EC EP HBf. pose proof A as (_ & LB0 & _).
+  destruct (BR r c f (fc :: frest) below [] 0 [] f fc frest [] below A FR EC EP) as (r' & c' & fc' & rest' & ST & M & EV & K & KR).
+  { apply find_name_top; assumption. } { reflexivity. } { reflexivity. } { constructor. } { rewrite <- LB0. exact HBf. }
+  { reflexivity. } { exact LB0. }
+  exists r', c', fc', rest'. split; [exact ST|]. split.
+  { destruct A as ((G0 & EF0 & _) & _). destruct G0 as (C0 & _). pose proof M as ((C' & _) & EF' & _).
+    eapply neq_by_frames; [exact C0|exact C'|]. rewrite EF', EF0. cbn [length]. rewrite (forall2_length _ _ _ KR). lia. }
+  split; [rewrite drop_scopes_S, drop_scopes_0 in M; exact M|]. split; [exact EV|]. split; assumption.
+Qed.
+
+(* from the statement that is the loop (running frame f, the operands evaluated, the operator executed: the loop frame nf is on top)
+   to the loop frame *)
+Lemma leaves0_of_loop a s' r r2 f f2 restf rest2 nf below topv :
+  Steps r r2 -> moved f f2 -> Forall2 kept restf rest2 -> f_err nf = None -> f_base nf = length (topv ++ below) -> under topv ->
+  LeavesL a s' r2 nf (f2 :: rest2) (topv ++ below) -> Leaves0 a s' r f restf below.
+Proof.
+  intros S0 MV K NE NB UT H. destruct a as [x|t v]; cbn [LeavesL Leaves0] in *.
+  - intros inner ft rest h jn below_t CH HF HErr EB UJ LBT.
+    destruct (chain_kept f restf inner ft rest f2 rest2 h (cv x) CH HF HErr MV K) as (inner1 & ft1 & rest1' & CH1 & HF1 & HE1 & HH1 & LEN1 & KR1 & FB1).
+    destruct (H inner1 ft1 rest1' h (topv ++ jn) below_t CH1 NE HF1 HE1) as (r' & c' & rest' & ft0 & ST & _ & K' & MT & CA).
+    { rewrite EB, app_assoc. reflexivity. } { apply Forall_app. split; assumption. } { rewrite FB1. exact LBT. }
+    exists r', c', rest', ft0. split; [eapply steps_trans; eassumption|]. split; [eapply kept_all_trans; eassumption|].
+    split; [eapply moved_trans; eassumption|]. rewrite LEN1 in CA. exact CA.
+  - intros k top fn fc rest jn below_n FN CH LT HB HC EB LBN.
+    destruct (chain_kept_b f restf top fn fc rest f2 rest2 CH MV K HB) as (top1 & fn1 & fc1 & rest1' & CH1 & LT1 & HB1 & FB1 & KC1 & KR1).
+    destruct (H k top1 fn1 fc1 rest1' (topv ++ jn) below_n FN CH1) as (r' & c' & fc' & rest' & ST & _ & M & EV & K' & KR).
+    { rewrite LT1. exact LT. } { rewrite FB1, NB, <- LBN, EB, !app_length. lia. } { exact HB1. }
+    { rewrite FB1, (kept_base _ _ KC1). exact HC. } { rewrite EB, app_assoc. reflexivity. } { rewrite FB1. exact LBN. }
+    exists r', c', fc', rest'. split; [eapply steps_trans; eassumption|]. split; [exact M|]. split; [exact EV|].
+    split; [eapply kept_trans; eassumption|eapply kept_all_trans; eassumption].
+Qed.
+
+(* ---- one round of a loop over an array that runs normally and is followed by another *)
+Lemma iter_round k s x x2 rest2 i body acc reg s1 acc1 r c f fc frest below allarr b :
+  BodyEnds (enter s (kvars k i x)) (match i with O => RNil | _ => RNone end) (compile_block body) (BNorm reg) s1 ->
+  kstep k x i reg acc = Some (true, acc1) -> kok k reg ->
+  AtM (enter s (kvars k i x)) (match i with O => RNil | _ => RNone end) r c f (fc :: frest) below -> Fresh c below ->
+  f_code f = compile_block body -> f_pos f = 0 -> f_exit f = Some b -> kb k allarr i acc b -> f_die f = false ->
+  skipn i allarr = x :: x2 :: rest2 -> leaf_first body -> f_ns f = f_ns fc -> f_base fc <= length below ->
+  exists rV cV fV fc1 frest1 b',
+    (forall r', Steps rV r' -> r' <> rV -> Steps r r') /\
+    AtM (enter (pop_scope s1) (kvars k (S i) x2)) RNone rV cV fV (fc1 :: frest1) below /\ Fresh cV below /\
+    f_code fV = compile_block body /\ f_pos fV = 0 /\ f_exit fV = Some b' /\ kb k allarr (S i) acc1 b' /\ f_die fV = false /\
+    skipn (S i) allarr = x2 :: rest2 /\ f_ns fV = f_ns fc1 /\ f_base fc1 <= length below /\
+    kept fc fc1 /\ Forall2 kept frest frest1 /\ f_err fV = f_err f /\ f_base fV = f_base f.
+Proof.
+  intros IHb KS KO A FR EC EP EX KB ED SK LF ENS HBf.
+  specialize (IHb r c f fc frest below [] A FR EC EP HBf). cbn in IHb.
+  destruct IHb as (r1 & c1 & f1 & rest1 & S1 & A1 & MV1 & P1 & K1).
+  inversion K1 as [|fa fc1 ra frest1 Ka Kb Ea Eb]; subst.
+  destruct A1 as ((G1 & EF1 & (F1 & N1) & B1 & D1) & LB1 & top1 & EV1 & RR1).
+  assert (XE : f_exit f1 = Some b) by (rewrite (moved_exit _ _ MV1); exact EX).
+  assert (XD : f_die f1 = false) by (rewrite (moved_die _ _ MV1); exact ED).
+  assert (XP : f_pos f1 = length (f_code f1)) by (rewrite P1, (moved_code _ _ MV1); reflexivity).
+  inversion F1 as [|sc1 f0 scs1 fs1 FM1 F1' E1 E2]; subst.
+  destruct (skipn_cons_nth _ _ _ _ SK) as [NX0 SK1].
+  destruct LF as (i0 & code' & LC & LL).
+  assert (EC1 : f_code f1 = i0 :: code') by (rewrite (moved_code _ _ MV1), EC; exact LC).
+  destruct (kind_round k allarr i x x2 rest2 acc acc1 reg b r1 c1 f1 (fc1 :: frest1) top1 below SK KB KS KO EF1 EV1 LB1 RR1) as (b' & KB' & GR).
+  pose proof (loop_back r1 c1 f1 (fc1 :: frest1) b b' (mvars (kvars k (S i) x2)) i0 code' below G1 EF1 XP XE XD EC1 LL GR) as LBk.
+  set (fV := round_frame f1 b' (mvars (kvars k (S i) x2))) in *.
+  set (cV := set_values (set_frames c1 (fV :: fc1 :: frest1)) below) in *.
+  exists (upd_cur r1 cV), cV, fV, fc1, frest1, b'.
+  split. { intros r' S4 N4. eapply steps_trans; [exact S1|eapply virtual_start; [exact LBk|apply cfg_upd_cur|exact S4|exact N4]]. }
+  split.
+  { split.
+    - split; [apply (good_upd r1 c1 cV G1); destruct G1 as (_ & _ & _ & _ & _ & _ & SU); exact SU|]. split; [reflexivity|]. split.
+      + apply match_upd. split; [|exact N1]. cbn. rewrite <- E1. cbn. constructor; [|exact F1'].
+        split; [|split; [|cbn; split; [exact (proj1 (proj2 (proj2 FM1)))|reflexivity]]].
+        * cbn. apply vars_match_mvars.
+        * cbn. rewrite (moved_ns _ _ MV1), ENS, <- (kept_ns _ _ Ka).
+          inversion F1' as [|sc2 f00 scs2 fs2 FM2 F1'' E3 E4]. destruct FM2 as (_ & NS2 & _).
+          unfold cur_ns_of, pop_scope. cbn. rewrite <- E1. cbn. rewrite <- E3. exact NS2.
+      + split; [cbn; rewrite LB1; lia|rewrite quirks_upd_cur; exact D1].
+    - split; [cbn; exact LB1|]. exists []. split; [reflexivity|reflexivity]. }
+  split. { nil_case. }
+  split. { cbn. rewrite (moved_code _ _ MV1). exact EC. }
+  split; [reflexivity|]. split; [reflexivity|]. split; [exact KB'|]. split; [cbn; exact XD|]. split; [exact SK1|].
+  split. { cbn. rewrite (moved_ns _ _ MV1), ENS, (kept_ns _ _ Ka). reflexivity. }
+  split. { rewrite (kept_base _ _ Ka). exact HBf. }
+  split; [exact Ka|]. split; [exact Kb|]. split; [cbn; apply (moved_err _ _ MV1)|cbn; apply (moved_base _ _ MV1)].
+Qed.
+
+(* ---- one round of a for loop that runs normally and is followed by another *)
+Lemma for_round_next var to st s x (first:bool) body reg s1 y r c f fc frest below :
+  BodyEnds (enter s [(lower var, RNum x)]) (if first then RNil else RNone) (compile_block body) (BNorm reg) s1 ->
+  hidden (lower var) = false -> top_var s1 (lower var) = Some (RNum y) -> beyond to st (y + st)%Z = false ->
+  AtM (enter s [(lower var, RNum x)]) (if first then RNil else RNone) r c f (fc :: frest) below -> Fresh c below ->
+  f_code f = compile_block body -> f_pos f = 0 -> f_exit f = Some (BFor var to st) -> f_die f = false ->
+  leaf_first body -> f_ns f = f_ns fc -> f_base fc <= length below ->
+  exists rV cV fV fc1 frest1,
+    (forall r', Steps rV r' -> r' <> rV -> Steps r r') /\
+    AtM (enter (pop_scope s1) [(lower var, RNum (y + st)%Z)]) RNone rV cV fV (fc1 :: frest1) below /\ Fresh cV below /\
+    f_code fV = compile_block body /\ f_pos fV = 0 /\ f_exit fV = Some (BFor var to st) /\ f_die fV = false /\
+    f_ns fV = f_ns fc1 /\ f_base fc1 <= length below /\
+    kept fc fc1 /\ Forall2 kept frest frest1 /\ f_err fV = f_err f /\ f_base fV = f_base f.
+Proof.
+  intros IHb HV TV BY A FR EC EP EX ED LF ENS HBf.
+  specialize (IHb r c f fc frest below [] A FR EC EP HBf). cbn in IHb.
+  destruct IHb as (r1 & c1 & f1 & rest1 & S1 & A1 & MV1 & P1 & K1).
+  inversion K1 as [|fa fc1 ra frest1 Ka Kb Ea Eb]; subst.
+  destruct A1 as ((G1 & EF1 & (F1 & N1) & B1 & D1) & LB1 & top1 & EV1 & RR1).
+  assert (XE : f_exit f1 = Some (BFor var to st)) by (rewrite (moved_exit _ _ MV1); exact EX).
+  assert (XD : f_die f1 = false) by (rewrite (moved_die _ _ MV1); exact ED).
+  assert (XP : f_pos f1 = length (f_code f1)) by (rewrite P1, (moved_code _ _ MV1); reflexivity).
+  inversion F1 as [|sc1 f0 scs1 fs1 FM1 F1' E1 E2]; subst.
+  assert (AV : assoc (lower var) (f_vars f1) = Some (VNum y)).
+  { destruct FM1 as (V1 & _). rewrite (V1 (lower var) HV). unfold top_var in TV. rewrite <- E1 in TV. rewrite TV. reflexivity. }
+  destruct LF as (i0 & code' & LC & LL).
+  assert (EC1 : f_code f1 = i0 :: code') by (rewrite (moved_code _ _ MV1), EC; exact LC).
+  pose proof (for_round var to st y r1 c1 f1 (fc1 :: frest1) top1 below EF1 EV1 LB1 AV BY) as GR.
+  pose proof (loop_back r1 c1 f1 (fc1 :: frest1) _ _ _ i0 code' below G1 EF1 XP XE XD EC1 LL GR) as LBk.
+  set (fV := round_frame f1 (BFor var to st) [(lower var, VNum (y + st)%Z)]) in *.
+  set (cV := set_values (set_frames c1 (fV :: fc1 :: frest1)) below) in *.
+  exists (upd_cur r1 cV), cV, fV, fc1, frest1.
+  split. { intros r' S4 N4. eapply steps_trans; [exact S1|eapply virtual_start; [exact LBk|apply cfg_upd_cur|exact S4|exact N4]]. }
+  split.
+  { split.
+    - split; [apply (good_upd r1 c1 cV G1); destruct G1 as (_ & _ & _ & _ & _ & _ & SU); exact SU|]. split; [reflexivity|]. split.
+      + apply match_upd. split; [|exact N1]. cbn. rewrite <- E1. cbn. constructor; [|exact F1'].
+        split; [|split; [|cbn; split; [exact (proj1 (proj2 (proj2 FM1)))|reflexivity]]].
+        * cbn. apply (vars_match_mvars [(lower var, RNum (y + st)%Z)]).
+        * cbn. rewrite (moved_ns _ _ MV1), ENS, <- (kept_ns _ _ Ka).
+          inversion F1' as [|sc2 f00 scs2 fs2 FM2 F1'' E3 E4]. destruct FM2 as (_ & NS2 & _).
+          unfold cur_ns_of, pop_scope. cbn. rewrite <- E1. cbn. rewrite <- E3. exact NS2.
+      + split; [cbn; rewrite LB1; lia|rewrite quirks_upd_cur; exact D1].
+    - split; [cbn; exact LB1|]. exists []. split; [reflexivity|reflexivity]. }
+  split. { nil_case. }
+  split. { cbn. rewrite (moved_code _ _ MV1). exact EC. }
+  split; [reflexivity|]. split; [reflexivity|]. split; [cbn; exact XD|].
+  split. { cbn. rewrite (moved_ns _ _ MV1), ENS, (kept_ns _ _ Ka). reflexivity. }
+  split. { rewrite (kept_base _ _ Ka). exact HBf. }
+  split; [exact Ka|]. split; [exact Kb|]. split; [cbn; apply (moved_err _ _ MV1)|cbn; apply (moved_base _ _ MV1)].
+Qed.
+
+(* ---- while: the condition has come out true, the body's instructions are in *)
+Lemma while_cond_body cond body s (first:bool) s1 r c f fc frest below loops :
+  BodyEnds (enter s []) (if first then RNil else RNone) (compile_block cond) (BNorm (RBool true)) s1 ->
+  AtM (enter s []) (if first then RNil else RNone) r c f (fc :: frest) below -> Fresh c below ->
+  f_code f = compile_block cond -> f_pos f = 0 ->
+  f_exit f = Some (BWhile loops WCond (compile_block cond) (compile_block body)) -> f_die f = false ->
+  leaf_first cond -> leaf_first body -> f_ns f = f_ns fc -> f_base fc <= length below ->
+  exists rB cB fB fc1 frest1,
+    (forall r', Steps rB r' -> r' <> rB -> Steps r r') /\
+    AtM (set_top_vars s1 []) RNone rB cB fB (fc1 :: frest1) below /\ Fresh cB below /\
+    f_code fB = compile_block body /\ f_pos fB = 0 /\
+    f_exit fB = Some (BWhile loops WCode (compile_block cond) (compile_block body)) /\ f_die fB = false /\
+    f_ns fB = f_ns fc1 /\ f_base fc1 <= length below /\
+    kept fc fc1 /\ Forall2 kept frest frest1 /\ f_err fB = f_err f /\ f_base fB = f_base f.
+Proof.
+  intros IHc A FR EC EP EX ED LFc LFb ENS HBf.
+  specialize (IHc r c f fc frest below [] A FR EC EP HBf). cbn in IHc.
+  destruct IHc as (r1 & c1 & f1 & rest1 & S1 & A1 & MV1 & P1 & K1).
+  inversion K1 as [|fa fc1 ra frest1 Ka Kb Ea Eb]; subst.
+  destruct A1 as ((G1 & EF1 & (F1 & N1) & B1 & D1) & LB1 & top1 & EV1 & RR1).
+  pose proof LFb as (ib & codeb & LCb & LLb). pose proof LFc as (ic & codec & LCc & LLc).
+  assert (XE : f_exit f1 = Some (BWhile loops WCond (ic :: codec) (ib :: codeb))) by (rewrite (moved_exit _ _ MV1), EX, LCc, LCb; reflexivity).
+  assert (XD : f_die f1 = false) by (rewrite (moved_die _ _ MV1); exact ED).
+  assert (XP : f_pos f1 = length (f_code f1)) by (rewrite P1, (moved_code _ _ MV1); reflexivity).
+  inversion F1 as [|sc1 f0 scs1 fs1 FM1 F1' E1 E2]; subst.
+  destruct top1 as [|x0 t]; [discriminate RR1|]. destruct RR1 as (-> & _ & UT). cbn [cv app] in EV1.
+  pose proof (while_to_body r1 c1 f1 (fc1 :: frest1) loops (ic :: codec) ib codeb t below EF1 EV1 LB1) as XB.
+  pose proof (xloop_back r1 c1 f1 (fc1 :: frest1) _ _ ib codeb below G1 EF1 XP XE XD LLb XB) as LBk1.
+  set (fB := xframe f1 (BWhile loops WCode (ic :: codec) (ib :: codeb)) (ib :: codeb)) in *.
+  set (cB := set_values (set_frames c1 (fB :: fc1 :: frest1)) below) in *.
+  assert (GB : Good (upd_cur r1 cB) cB) by (apply (good_upd r1 c1 cB G1); destruct G1 as (_ & _ & _ & _ & _ & _ & SU); exact SU).
+  exists (upd_cur r1 cB), cB, fB, fc1, frest1.
+  split. { intros r' S4 N4. eapply steps_trans; [exact S1|eapply virtual_start; [exact LBk1|apply cfg_upd_cur|exact S4|exact N4]]. }
+  split.
+  { split.
+    - split; [exact GB|]. split; [reflexivity|]. split.
+      + apply match_upd. unfold set_top_vars. rewrite <- E1. split; [|exact N1]. cbn. constructor; [|exact F1'].
+        destruct FM1 as (_ & NS1 & BB1). split; [intros k; reflexivity|split; [cbn; exact NS1|cbn; exact BB1]].
+      + split; [cbn; rewrite LB1; lia|rewrite quirks_upd_cur; exact D1].
+    - split; [cbn; exact LB1|]. exists []. split; [reflexivity|reflexivity]. }
+  split. { nil_case. }
+  split. { cbn. rewrite LCb. reflexivity. }
+  split; [reflexivity|]. split. { cbn. rewrite LCc, LCb. reflexivity. } split; [cbn; exact XD|].
+  split. { cbn. rewrite (moved_ns _ _ MV1), ENS, (kept_ns _ _ Ka). reflexivity. }
+  split. { rewrite (kept_base _ _ Ka). exact HBf. }
+  split; [exact Ka|]. split; [exact Kb|]. split; [cbn; apply (moved_err _ _ MV1)|cbn; apply (moved_base _ _ MV1)].
+Qed.
+
+(* ---- while: the body has run out, the condition's instructions are back in *)
+Lemma while_body_cond cond body s1 reg s2 r c f fc frest below loops :
+  BodyEnds (set_top_vars s1 []) RNone (compile_block body) (BNorm reg) s2 ->
+  AtM (set_top_vars s1 []) RNone r c f (fc :: frest) below -> Fresh c below ->
+  f_code f = compile_block body -> f_pos f = 0 ->
+  f_exit f = Some (BWhile loops WCode (compile_block cond) (compile_block body)) -> f_die f = false ->
+  leaf_first cond -> leaf_first body -> f_ns f = f_ns fc -> f_base fc <= length below ->
+  exists rC cC fC fc1 frest1 loops',
+    (forall r', Steps rC r' -> r' <> rC -> Steps r r') /\
+    AtM (enter (pop_scope s2) []) RNone rC cC fC (fc1 :: frest1) below /\ Fresh cC below /\
+    f_code fC = compile_block cond /\ f_pos fC = 0 /\
+    f_exit fC = Some (BWhile loops' WCond (compile_block cond) (compile_block body)) /\ f_die fC = false /\
+    f_ns fC = f_ns fc1 /\ f_base fc1 <= length below /\
+    kept fc fc1 /\ Forall2 kept frest frest1 /\ f_err fC = f_err f /\ f_base fC = f_base f.
+Proof.
+  intros IHb A FR EC EP EX ED LFc LFb ENS HBf.
+  specialize (IHb r c f fc frest below [] A FR EC EP HBf). cbn [app length] in IHb.
+  destruct IHb as (r2 & c2 & f2 & rest2 & S2 & A2 & MV2 & P2 & K2).
+  pose proof LFb as (ib & codeb & LCb & LLb). pose proof LFc as (ic & codec & LCc & LLc).
+  inversion K2 as [|fb fc2 rb frest2 Kc Kd Ec Ed]; subst.
+  destruct A2 as ((G2 & EF2 & (F2 & N2) & B2 & D2) & LB2 & top2 & EV2 & RR2).
+  set (loops' := if c_can_suspend c2 then loops else S loops).
+  assert (XE2 : f_exit f2 = Some (BWhile loops WCode (ic :: codec) (ib :: codeb))) by (rewrite (moved_exit _ _ MV2), EX, LCc, LCb; reflexivity).
+  assert (XD2 : f_die f2 = false) by (rewrite (moved_die _ _ MV2); exact ED).
+  assert (XP2 : f_pos f2 = length (f_code f2)) by (rewrite P2, (moved_code _ _ MV2); reflexivity).
+  inversion F2 as [|sc2 f00 scs2 fs2 FM2 F2' E3 E4]; subst.
+  pose proof (while_to_cond r2 c2 f2 (fc2 :: frest2) loops ic codec (ib :: codeb) top2 below EF2 EV2 LB2 (quirks_loop _ D2)) as XC.
+  pose proof (xloop_back r2 c2 f2 (fc2 :: frest2) _ _ ic codec below G2 EF2 XP2 XE2 XD2 LLc XC) as LBk2.
+  fold loops' in LBk2.
+  set (fC := xframe f2 (BWhile loops' WCond (ic :: codec) (ib :: codeb)) (ic :: codec)) in *.
+  set (cC := set_values (set_frames c2 (fC :: fc2 :: frest2)) below) in *.
+  exists (upd_cur r2 cC), cC, fC, fc2, frest2, loops'.
+  split. { intros r' S4 N4. eapply steps_trans; [exact S2|eapply virtual_start; [exact LBk2|apply cfg_upd_cur|exact S4|exact N4]]. }
+  split.
+  { split.
+    - split; [apply (good_upd r2 c2 cC G2); destruct G2 as (_ & _ & _ & _ & _ & _ & SU); exact SU|]. split; [reflexivity|]. split.
+      + apply match_upd. split; [|exact N2]. cbn. rewrite <- E3. cbn. constructor; [|exact F2'].
+        split; [intros k; reflexivity|split; [|cbn; split; [exact (proj1 (proj2 (proj2 FM2)))|reflexivity]]].
+        cbn. rewrite (moved_ns _ _ MV2), ENS, <- (kept_ns _ _ Kc).
+        inversion F2' as [|sc3 f000 scs3 fs3 FM3 F2'' E5 E6]. destruct FM3 as (_ & NS3 & _).
+        unfold cur_ns_of, pop_scope. cbn. rewrite <- E3. cbn. rewrite <- E5. exact NS3.
+      + split; [cbn; rewrite LB2; lia|rewrite quirks_upd_cur; exact D2].
+    - split; [cbn; exact LB2|]. exists []. split; [reflexivity|reflexivity]. }
+  split. { nil_case. }
+  split. { cbn. rewrite LCc. reflexivity. }
+  split; [reflexivity|]. split. { cbn. rewrite LCc, LCb. reflexivity. } split; [cbn; exact XD2|].
+  split. { cbn. rewrite (moved_ns _ _ MV2), ENS, (kept_ns _ _ Kc). reflexivity. }
+  split. { rewrite (kept_base _ _ Kc). exact HBf. }
+  split; [exact Kc|]. split; [exact Kd|]. split; [cbn; apply (moved_err _ _ MV2)|cbn; apply (moved_base _ _ MV2)].
+Qed.
+
+(* ---- the machine-side statements about the new relations *)
+Definition IterLeaves (k:lkind) (s:sstate) (arr:list rvalue) (i:nat) (body:list stmt) (acc:rvalue) (a:abr) (s':sstate) : Prop :=
+  match arr with
+  | [] => True
+  | x :: rest0 =>
+    forall r c f fc frest below allarr b,
+      AtM (enter s (kvars k i x)) (match i with O => RNil | _ => RNone end) r c f (fc :: frest) below -> Fresh c below ->
+      f_code f = compile_block body -> f_pos f = 0 -> f_exit f = Some b -> kb k allarr i acc b -> f_die f = false ->
+      skipn i allarr = x :: rest0 -> leaf_first body -> f_ns f = f_ns fc -> f_base fc <= length below ->
+      LeavesL a s' r f (fc :: frest) below
+  end.
+Definition ForLeaves (var:string) (to st:Z) (s:sstate) (x:Z) (first:bool) (body:list stmt) (a:abr) (s':sstate) : Prop :=
+  forall r c f fc frest below,
+    AtM (enter s [(lower var, RNum x)]) (if first then RNil else RNone) r c f (fc :: frest) below -> Fresh c below ->
+    f_code f = compile_block body -> f_pos f = 0 -> f_exit f = Some (BFor var to st) -> f_die f = false ->
+    leaf_first body -> f_ns f = f_ns fc -> f_base fc <= length below ->
+    LeavesL a s' r f (fc :: frest) below.
+Definition WhileLeaves (cond body:list stmt) (s:sstate) (first:bool) (a:abr) (s':sstate) : Prop :=
+  forall r c f fc frest below loops,
+    AtM (enter s []) (if first then RNil else RNone) r c f (fc :: frest) below -> Fresh c below ->
+    f_code f = compile_block cond -> f_pos f = 0 ->
+    f_exit f = Some (BWhile loops WCond (compile_block cond) (compile_block body)) -> f_die f = false ->
+    leaf_first cond -> leaf_first body -> f_ns f = f_ns fc -> f_base fc <= length below ->
+    LeavesL a s' r f (fc :: frest) below.
+(* a loop standing as a statement of the running frame f *)
+Definition ExprLeaves (s:sstate) (e:expr) (a:abr) (s':sstate) : Prop :=
+  forall reg r c f restf below pre post, AtM s reg r c f restf below -> Fresh c below ->
+    f_code f = pre ++ compile_expr e ++ post -> f_pos f = length pre -> Leaves0 a s' r f restf below.
+
+(* any binary operator that opens a loop frame: the operands are evaluated, the operator pushes the frame mkf, and from the start of
+   the first round the loop leaves *)
+Lemma loop_expr_leaves s n a x va vb s1 s2 vars0 (mkf : string -> frame) a' s3 :
+  (forall r c f rest pre post, Mach s r c f rest -> f_code f = pre ++ compile_expr a ++ post -> f_pos f = length pre ->
+     Post s1 (cv va) (length (compile_expr a)) r c f rest) ->
+  (forall r c f rest pre post, Mach s1 r c f rest -> f_code f = pre ++ compile_expr x ++ post -> f_pos f = length pre ->
+     Post s2 (cv vb) (length (compile_expr x)) r c f rest) ->
+  cv va <> VNil -> cv vb <> VNil ->
+  (forall r c0, op_binary (lower n) (cv va) (cv vb) r c0 = Ok (r, push_frame c0 (mkf (cur_ns c0)), VNil)) ->
+  (forall ns, f_err (mkf ns) = None /\ f_ns (mkf ns) = ns /\ f_bubble (mkf ns) = true /\ f_scope (mkf ns) = "" /\
+              vars_match vars0 (f_vars (mkf ns))) ->
+  (forall r c fc frest below, AtM (enter s2 vars0) RNil r c (set_base (mkf (f_ns fc)) (length below)) (fc :: frest) below ->
+     Fresh c below -> f_base fc <= length below -> LeavesL a' s3 r (set_base (mkf (f_ns fc)) (length below)) (fc :: frest) below) ->
+  ExprLeaves s (EBinary n a x) a' s3.
+Proof.
+  intros IHa IHx NA NB OP MK HL reg r c f restf below pre post (MA & LB & top & EV & RR) FR EC EP.
+  rewrite compile_binary in EC. rewrite <- !app_assoc in EC.
+  post_intro (IHa r c f restf pre (compile_expr x ++ [IBinary (lower n)] ++ post) MA EC EP) r1 c1 f1 rest1 S1 M1 EV1 MV1 P1 K1.
+  destruct (after_operands_code f f1 pre _ _ MV1 EC EP P1) as [EC1 EP1].
+  post_intro (IHx r1 c1 f1 rest1 (pre ++ compile_expr a) ([IBinary (lower n)] ++ post) M1 EC1 EP1) r2 c2 f2 rest2 S2 M2 EV2 MV2 P2 K2.
+  destruct (after_operands_code f1 f2 _ _ _ MV2 EC1 EP1 P2) as [EC2 EP2].
+  destruct M2 as (G2 & EF2 & MM2 & B2 & D2). destruct MA as (_ & _ & _ & B & _).
+  rewrite EV1 in EV2.
+  set (c0 := set_values (set_frames c2 (set_pos f2 (S (f_pos f2)) :: rest2)) (c_values c)).
+  assert (NS0 : cur_ns c0 = f_ns (set_pos f2 (S (f_pos f2)))) by reflexivity.
+  set (lf := mkf (cur_ns c0)).
+  destruct (binary_run r2 c2 f2 rest2 _ _ (lower n) (cv va) (cv vb) (c_values c) (push_frame c0 lf) VNil G2 EF2 EC2 EP2 EV2) as [S3 G3].
+  { rewrite (moved_base _ _ MV2), (moved_base _ _ MV1); exact B. } { exact NB. } { exact NA. }
+  { rewrite lower_idem. apply OP. }
+  { destruct G2 as (_ & _ & _ & _ & _ & _ & SU); exact SU. }
+  destruct (MK (cur_ns c0)) as (ME & MN & MB & MS & MV).
+  assert (HL' := HL (upd_cur r2 (push_value (push_frame c0 lf) VNil)) (push_value (push_frame c0 lf) VNil) (set_pos f2 (S (f_pos f2))) rest2 (c_values c)).
+  rewrite <- NS0 in HL'. fold lf in HL'.
+  eapply (leaves0_of_loop a' s3 r _ f (set_pos f2 (S (f_pos f2))) restf rest2 (set_base lf (length (c_values c))) below top).
+  - eapply steps_trans; [exact S1|eapply steps_trans; [exact S2|exact S3]].
+  - eapply moved_trans; [exact MV1|eapply moved_trans; [exact MV2|apply moved_set_pos]].
+  - eapply kept_all_trans; eassumption.
+  - cbn [f_err set_base]. exact ME.
+  - cbn [f_base set_base]. rewrite EV. reflexivity.
+  - exact (fresh_under c top below EV FR).
+  - rewrite <- EV. apply HL'.
+    + split.
+      * split; [exact G3|]. split; [reflexivity|]. split.
+        -- apply match_upd. destruct MM2 as [F N]. split; [|exact N]. cbn [enter push_scope with_scopes st_scopes]. inversion F as [|sc f0 scs fs FM F' E1 E2]; subst.
+           constructor; [|constructor; [exact FM|exact F']].
+           split; [cbn [sc_vars mk_scope f_vars set_base]; exact MV|split; [|split]].
+           ++ cbn [f_ns set_base sc_ns mk_scope]. unfold lf. rewrite MN, NS0. cbn [f_ns set_pos]. destruct FM as (_ & NS & _). unfold cur_ns_of. rewrite <- E1. exact NS.
+           ++ cbn [f_bubble set_base]. exact MB.
+           ++ cbn [f_scope set_base sc_name mk_scope]. exact MS.
+        -- split; [cbn; lia|rewrite quirks_upd_cur; exact D2].
+      * split; [reflexivity|]. exists [VNil]. split; [reflexivity|]. split; [reflexivity|]. split; [discriminate|nil_case].
+    + apply fresh_one; reflexivity.
+    + cbn. rewrite (moved_base _ _ MV2), (moved_base _ _ MV1); exact B.
+Qed.
+
 Theorem vm_runs_z :
   (forall s e v s', zev s e v s' -> forall r c f rest pre post, Mach s r c f rest ->
       f_code f = pre ++ compile_expr e ++ post -> f_pos f = length pre -> Post s' (cv v) (length (compile_expr e)) r c f rest) /\
@@ -1754,7 +2306,11 @@ Theorem vm_runs_z :
   (forall var to st s x first body acc s', zfor var to st s x first body acc s' -> ForRuns var to st s x first body acc s') /\
   (forall cond body s first v s', zwhile cond body s first v s' -> WhileRuns cond body s first v s') /\
   (forall s reg b x s', zthrow s reg b x s' -> ThrowRuns s reg (compile_block b) x s') /\
-  (forall s reg b t v s', zbreak s reg b t v s' -> BreakRuns s reg (compile_block b) t v s').
+  (forall s reg b t v s', zbreak s reg b t v s' -> BreakRuns s reg (compile_block b) t v s') /\
+  (forall s e a s', zloopleave s e a s' -> ExprLeaves s e a s') /\
+  (forall k s arr i body acc a s', zileave k s arr i body acc a s' -> IterLeaves k s arr i body acc a s') /\
+  (forall var to st s x first body a s', zfleave var to st s x first body a s' -> ForLeaves var to st s x first body a s') /\
+  (forall cond body s first a s', zwleave cond body s first a s' -> WhileLeaves cond body s first a s').
 Proof.
   apply z_ind.
   - (* pure *) intros s e v HE r c f rest pre post (G & EF & M & B & D) EC EP.
@@ -2833,6 +3389,9 @@ Proof.
     { destruct A as ((G0 & EF0 & _) & _). destruct G0 as (C0 & _). destruct M1 as ((C1 & _) & EF1 & _). eapply neq_by_frames; [exact C0|exact C1|].
       rewrite EF1, EF0. cbn. rewrite (forall2_length _ _ _ KR1). lia. }
     split; [exact M1|]. split; [exact EV1|]. split; assumption.
+  - (* a round left by breakOut to the name of its own scope: the loop is over *) intros k s x rest0 i body acc t v s1 HK IHk TN.
+    cbn [IterRuns]. intros r c f fc frest below allarr b A FR EC EP EX KB ED SK LF ENS HBf.
+    exact (own_break _ _ _ t v s1 r c f fc frest below IHk (proj1 (zbreak_facts _ _ _ _ _ _ HK)) TN A FR EC EP HBf).
   - (* a round of for, then the rest *) intros var to st s x first body reg s1 y acc' s' HB IHb HV TV BY HI IHi.
     intros r c f fc frest below A FR EC EP EX ED LF ENS HBf.
     specialize (IHb r c f fc frest below [] A FR EC EP HBf). cbn in IHb.
@@ -2907,6 +3466,9 @@ Proof.
     { destruct A as ((G0 & EF0 & _) & _). destruct G0 as (C0 & _). destruct M1 as ((C1 & _) & EF1 & _). eapply neq_by_frames; [exact C0|exact C1|].
       rewrite EF1, EF0. cbn. rewrite (forall2_length _ _ _ KR1). lia. }
     split; [exact M1|]. split; [exact EV1|]. split; assumption.
+  - (* a round of for left by breakOut to the name of its own scope *) intros var to st s x first body t v s1 HK IHk TN.
+    intros r c f fc frest below A FR EC EP EX ED LF ENS HBf.
+    exact (own_break _ _ _ t v s1 r c f fc frest below IHk (proj1 (zbreak_facts _ _ _ _ _ _ HK)) TN A FR EC EP HBf).
   - (* while: the condition comes out false *) intros cond body s first s1 HC IHc.
     intros r c f fc frest below loops A FR EC EP EX ED LFc LFb ENS HBf.
     specialize (IHc r c f fc frest below [] A FR EC EP HBf). cbn in IHc.
@@ -3037,6 +3599,19 @@ Proof.
     split.
     { destruct G0 as (C0 & _). destruct M2 as ((C2 & _) & EF2 & _). eapply neq_by_frames; [exact C0|exact C2|].
       rewrite EF2, EF0. cbn. rewrite (forall2_length _ _ _ KR2), (forall2_length _ _ _ Kb). lia. }
+    split; [exact M2|]. split; [exact EV2|]. split; [eapply kept_trans; eassumption|eapply kept_all_trans; eassumption].
+  - (* while: the condition is left by breakOut to the name of the loop's scope *) intros cond body s first t v s1 HK IHk TN.
+    intros r c f fc frest below loops A FR EC EP EX ED LFc LFb ENS HBf.
+    exact (own_break _ _ _ t v s1 r c f fc frest below IHk (proj1 (zbreak_facts _ _ _ _ _ _ HK)) TN A FR EC EP HBf).
+  - (* while: the body is left by breakOut to the name of the loop's scope *) intros cond body s first s1 t v s2 HC IHc HK IHk TN.
+    intros r c f fc frest below loops A FR EC EP EX ED LFc LFb ENS HBf.
+    destruct (while_cond_body cond body s first s1 r c f fc frest below loops IHc A FR EC EP EX ED LFc LFb ENS HBf)
+      as (rB & cB & fB & fc1 & frest1 & HS1 & AB & FRB & ECB & EPB & EXB & EDB & ENSB & HBB & Ka & Kb & EE1 & EB1).
+    destruct (own_break _ _ _ t v s2 rB cB fB fc1 frest1 below IHk (proj1 (zbreak_facts _ _ _ _ _ _ HK)) TN AB FRB ECB EPB HBB)
+      as (r2 & c2 & fc2 & rest2 & S2 & N2 & M2 & EV2 & K2 & KR2).
+    exists r2, c2, fc2, rest2. split; [apply HS1; assumption|]. split.
+    { destruct A as ((G0 & EF0 & _) & _). destruct G0 as (C0 & _). pose proof M2 as ((C2 & _) & EF2 & _). eapply neq_by_frames; [exact C0|exact C2|].
+      rewrite EF2, EF0. cbn [length]. rewrite (forall2_length _ _ _ KR2), (forall2_length _ _ _ Kb). lia. }
     split; [exact M2|]. split; [exact EV2|]. split; [eapply kept_trans; eassumption|eapply kept_all_trans; eassumption].
   - (* throw: a statement, then the rest of the block that throws *)
     intros s reg st reg1 s1 st2 rest0 x s' HS IHs HT IHt r c f restf below pre inner ft rest h jn below_t A FR EC EP CH HF HErr EB UJ LBT.
@@ -3189,6 +3764,9 @@ Proof.
     { apply Forall_app. split; [exact (fresh_under c top _ EV FR)|exact UJ]. } { rewrite FB1. exact LBT. }
     exists r5, c5, rest5, ft0. split; [eapply steps_trans; [exact S1|eapply steps_trans; [exact S2|eapply steps_trans; [exact S3|eapply steps_trans; [exact S4|exact S5]]]]|].
     split; [eapply kept_all_trans; eassumption|]. split; [eapply moved_trans; eassumption|]. cbn [length] in CA5. rewrite drop_scopes_S, LEN1 in CA5. exact CA5.
+  - (* a loop standing as a statement is left by a throw *)
+    intros s reg e y s3 rest0 HL IHl r c f restf below pre inner ft rest h jn below_t A FR EC EP CH HF HErr EB UJ LBT.
+    exact (IHl reg r c f restf below pre (compile_block_from false rest0) A FR EC EP inner ft rest h jn below_t CH HF HErr EB UJ LBT).
   - (* breakOut: a statement, then the rest of the block that breaks out *)
     intros s reg st reg1 s1 st2 rest0 t v s' HS IHs HK IHk r c f restf below pre k top fn fc rest jn below_n A FR EC EP FN CH LT HB HC EB LBN.
     rewrite compile_block_cons2 in EC.
@@ -3319,6 +3897,120 @@ Proof.
     { rewrite FB1, (kept_base _ _ KC1). exact HC. } { cbn [c0 set_values c_values]. rewrite EV, EB, app_assoc. reflexivity. } { rewrite FB1. exact LBN. }
     exists r4, c4, fc4, rest4. split; [eapply steps_trans; [exact S1|eapply steps_trans; [exact S2|eapply steps_trans; [exact S3|exact S4]]]|].
     split; [exact M4|]. split; [exact EV4|]. split; [eapply kept_trans; eassumption|eapply kept_all_trans; eassumption].
+  - (* a loop standing as a statement is left by breakOut *)
+    intros s reg e t v s3 rest0 HL IHl r c f restf below pre k top fn fc rest jn below_n A FR EC EP FN CH LT HB HC EB LBN.
+    exact (IHl reg r c f restf below pre (compile_block_from false rest0) A FR EC EP k top fn fc rest jn below_n FN CH LT HB HC EB LBN).
+  - (* {..} forEach / count [x0, ..] is left *)
+    intros s n a x body x0 arr k s1 s2 ab s3 HN HK LF HA IHa HX IHx HI IHi.
+    eapply (loop_expr_leaves s n a x (RCode body) (RArr (x0 :: arr)) s1 s2 (kvars k 0 x0) (fun ns => kframe k ns body (x0 :: arr) x0) ab s3 IHa IHx).
+    + discriminate.
+    + discriminate.
+    + intros r c0. rewrite <- HN. destruct k; try discriminate HK; reflexivity.
+    + intros ns. split; [reflexivity|]. split; [reflexivity|]. split; [reflexivity|]. split; [reflexivity|]. apply kvars0_match.
+    + intros r c fc frest below A FR HB. cbn [IterLeaves] in IHi.
+      eapply (IHi r c _ fc frest below (x0 :: arr) (kbeh0 k (map cv (x0 :: arr))));
+        [exact A|exact FR|reflexivity|reflexivity|reflexivity|apply kb_init|reflexivity|reflexivity|exact LF|reflexivity|exact HB].
+  - (* [x0, ..] apply / select / findIf {..} is left *)
+    intros s n a x body x0 arr k s1 s2 ab s3 HN HK LF HA IHa HX IHx HI IHi.
+    eapply (loop_expr_leaves s n a x (RArr (x0 :: arr)) (RCode body) s1 s2 (kvars k 0 x0) (fun ns => kframe k ns body (x0 :: arr) x0) ab s3 IHa IHx).
+    + discriminate.
+    + discriminate.
+    + intros r c0. rewrite <- HN. destruct k; try discriminate HK; reflexivity.
+    + intros ns. split; [reflexivity|]. split; [reflexivity|]. split; [reflexivity|]. split; [reflexivity|]. apply kvars0_match.
+    + intros r c fc frest below A FR HB. cbn [IterLeaves] in IHi.
+      eapply (IHi r c _ fc frest below (x0 :: arr) (kbeh0 k (map cv (x0 :: arr))));
+        [exact A|exact FR|reflexivity|reflexivity|reflexivity|apply kb_init|reflexivity|reflexivity|exact LF|reflexivity|exact HB].
+  - (* for .. do {..} is left *)
+    intros s n a b var fr to st body s1 s2 ab s3 HN HA IHa HB IHb HE LF HI IHi.
+    eapply (loop_expr_leaves s n a b (RFor var fr to st) (RCode body) s1 s2 [(lower var, RNum fr)]
+              (fun ns => mk_frame ns (compile_block body) (Some (BFor var to st)) None [(lower var, VNum fr)]) ab s3 IHa IHb).
+    + discriminate.
+    + discriminate.
+    + intros r c0. rewrite HN. cbn [cv]. rewrite for_do_vm, HE. reflexivity.
+    + intros ns. split; [reflexivity|]. split; [reflexivity|]. split; [reflexivity|]. split; [reflexivity|].
+      apply (vars_match_mvars [(lower var, RNum fr)]).
+    + intros r c fc frest below A FR HBf.
+      eapply (IHi r c _ fc frest below); [exact A|exact FR|reflexivity|reflexivity|reflexivity|reflexivity|exact LF|reflexivity|exact HBf].
+  - (* while {..} do {..} is left *)
+    intros s n a b cond body s1 s2 ab s3 HN HA IHa HB IHb LFc LFb HW IHw.
+    pose proof LFc as (ic & codec & LCc & _).
+    eapply (loop_expr_leaves s n a b (RWhile cond) (RCode body) s1 s2 []
+              (fun ns => mk_frame ns (compile_block cond) (Some (BWhile 0 WCond (compile_block cond) (compile_block body))) None []) ab s3 IHa IHb).
+    + discriminate.
+    + discriminate.
+    + intros r c0. rewrite HN. cbn [cv]. rewrite LCc. apply while_do_vm.
+    + intros ns. split; [reflexivity|]. split; [reflexivity|]. split; [reflexivity|]. split; [reflexivity|]. intros kk _. reflexivity.
+    + intros r c fc frest below A FR HBf.
+      eapply (IHw r c _ fc frest below 0); [exact A|exact FR|reflexivity|reflexivity|reflexivity|reflexivity|exact LFc|exact LFb|reflexivity|exact HBf].
+  - (* loop over an array: a round, then the rest in which the loop is left *)
+    intros k s x rest0 i body acc reg s1 acc1 ab s' HB IHb KS KO HI IHi.
+    destruct rest0 as [|x2 rest2]; [inversion HI|].
+    cbn [IterLeaves]. intros r c f fc frest below allarr b A FR EC EP EX KB ED SK LF ENS HBf.
+    destruct (iter_round k s x x2 rest2 i body acc reg s1 acc1 r c f fc frest below allarr b IHb KS KO A FR EC EP EX KB ED SK LF ENS HBf)
+      as (rV & cV & fV & fc1 & frest1 & b' & HS & AV & FRV & ECV & EPV & EXV & KBV & EDV & SKV & ENSV & HBV & Ka & Kb & EE & EBs).
+    destruct A as ((G0 & EF0 & _) & _). destruct G0 as (C0 & _).
+    apply (leavesL_transfer ab s' r c f fc frest rV fV fc1 frest1 below C0 EF0 HS Ka Kb EE EBs).
+    cbn [IterLeaves] in IHi. exact (IHi rV cV fV fc1 frest1 below allarr b' AV FRV ECV EPV EXV KBV EDV SKV LF ENSV HBV).
+  - (* loop over an array: the body of this round is left by a throw *)
+    intros k s x rest0 i body acc y s1 HT IHt.
+    cbn [IterLeaves]. intros r c f fc frest below allarr b A FR EC EP EX KB ED SK LF ENS HBf.
+    exact (leavesL_throw _ _ _ y s1 r c f (fc :: frest) below IHt A FR EC EP).
+  - (* loop over an array: the body of this round is left by breakOut *)
+    intros k s x rest0 i body acc t v s1 HK IHk TN.
+    cbn [IterLeaves]. intros r c f fc frest below allarr b A FR EC EP EX KB ED SK LF ENS HBf.
+    exact (leavesL_break _ _ _ t v s1 r c f (fc :: frest) below IHk TN A FR EC EP).
+  - (* for: a round, then the rest in which the loop is left *)
+    intros var to st s x first body reg s1 y ab s' HB IHb HV TV BY HI IHi.
+    intros r c f fc frest below A FR EC EP EX ED LF ENS HBf.
+    destruct (for_round_next var to st s x first body reg s1 y r c f fc frest below IHb HV TV BY A FR EC EP EX ED LF ENS HBf)
+      as (rV & cV & fV & fc1 & frest1 & HS & AV & FRV & ECV & EPV & EXV & EDV & ENSV & HBV & Ka & Kb & EE & EBs).
+    destruct A as ((G0 & EF0 & _) & _). destruct G0 as (C0 & _).
+    apply (leavesL_transfer ab s' r c f fc frest rV fV fc1 frest1 below C0 EF0 HS Ka Kb EE EBs).
+    exact (IHi rV cV fV fc1 frest1 below AV FRV ECV EPV EXV EDV LF ENSV HBV).
+  - (* for: the body of this round is left by a throw *)
+    intros var to st s x first body y s1 HT IHt.
+    intros r c f fc frest below A FR EC EP EX ED LF ENS HBf.
+    exact (leavesL_throw _ _ _ y s1 r c f (fc :: frest) below IHt A FR EC EP).
+  - (* for: the body of this round is left by breakOut *)
+    intros var to st s x first body t v s1 HK IHk TN.
+    intros r c f fc frest below A FR EC EP EX ED LF ENS HBf.
+    exact (leavesL_break _ _ _ t v s1 r c f (fc :: frest) below IHk TN A FR EC EP).
+  - (* while: a round, then the rest in which the loop is left *)
+    intros cond body s first s1 reg s2 ab s' HC IHc HB IHb HW IHw.
+    intros r c f fc frest below loops A FR EC EP EX ED LFc LFb ENS HBf.
+    destruct (while_cond_body cond body s first s1 r c f fc frest below loops IHc A FR EC EP EX ED LFc LFb ENS HBf)
+      as (rB & cB & fB & fc1 & frest1 & HS1 & AB & FRB & ECB & EPB & EXB & EDB & ENSB & HBB & Ka & Kb & EE1 & EB1).
+    destruct (while_body_cond cond body s1 reg s2 rB cB fB fc1 frest1 below loops IHb AB FRB ECB EPB EXB EDB LFc LFb ENSB HBB)
+      as (rC & cC & fC & fc2 & frest2 & loops' & HS2 & AC & FRC & ECC & EPC & EXC & EDC & ENSC & HBC & Kc & Kd & EE2 & EB2).
+    destruct A as ((G0 & EF0 & _) & _). destruct G0 as (C0 & _).
+    apply (leavesL_transfer ab s' r c f fc frest rB fB fc1 frest1 below C0 EF0 HS1 Ka Kb EE1 EB1).
+    pose proof AB as (((CB & _) & EFB & _) & _).
+    apply (leavesL_transfer ab s' rB cB fB fc1 frest1 rC fC fc2 frest2 below CB EFB HS2 Kc Kd EE2 EB2).
+    exact (IHw rC cC fC fc2 frest2 below loops' AC FRC ECC EPC EXC EDC LFc LFb ENSC HBC).
+  - (* while: the condition is left by a throw *)
+    intros cond body s first y s1 HT IHt.
+    intros r c f fc frest below loops A FR EC EP EX ED LFc LFb ENS HBf.
+    exact (leavesL_throw _ _ _ y s1 r c f (fc :: frest) below IHt A FR EC EP).
+  - (* while: the condition is left by breakOut *)
+    intros cond body s first t v s1 HK IHk TN.
+    intros r c f fc frest below loops A FR EC EP EX ED LFc LFb ENS HBf.
+    exact (leavesL_break _ _ _ t v s1 r c f (fc :: frest) below IHk TN A FR EC EP).
+  - (* while: the body is left by a throw *)
+    intros cond body s first s1 y s2 HC IHc HT IHt.
+    intros r c f fc frest below loops A FR EC EP EX ED LFc LFb ENS HBf.
+    destruct (while_cond_body cond body s first s1 r c f fc frest below loops IHc A FR EC EP EX ED LFc LFb ENS HBf)
+      as (rB & cB & fB & fc1 & frest1 & HS1 & AB & FRB & ECB & EPB & EXB & EDB & ENSB & HBB & Ka & Kb & EE1 & EB1).
+    destruct A as ((G0 & EF0 & _) & _). destruct G0 as (C0 & _).
+    apply (leavesL_transfer (AThrow y) (pop_scope s2) r c f fc frest rB fB fc1 frest1 below C0 EF0 HS1 Ka Kb EE1 EB1).
+    exact (leavesL_throw _ _ _ y s2 rB cB fB (fc1 :: frest1) below IHt AB FRB ECB EPB).
+  - (* while: the body is left by breakOut *)
+    intros cond body s first s1 t v s2 HC IHc HK IHk TN.
+    intros r c f fc frest below loops A FR EC EP EX ED LFc LFb ENS HBf.
+    destruct (while_cond_body cond body s first s1 r c f fc frest below loops IHc A FR EC EP EX ED LFc LFb ENS HBf)
+      as (rB & cB & fB & fc1 & frest1 & HS1 & AB & FRB & ECB & EPB & EXB & EDB & ENSB & HBB & Ka & Kb & EE1 & EB1).
+    destruct A as ((G0 & EF0 & _) & _). destruct G0 as (C0 & _).
+    apply (leavesL_transfer (ABreak t v) (pop_scope s2) r c f fc frest rB fB fc1 frest1 below C0 EF0 HS1 Ka Kb EE1 EB1).
+    exact (leavesL_break _ _ _ t v s2 rB cB fB (fc1 :: frest1) below IHk TN AB FRB ECB EPB).
 Qed.
 
 
@@ -3522,6 +4214,25 @@ Proof.
   - exists (S f0). intros [|f] L; [lia|]. cbn [eval_switch_body]. rewrite HN. cbn [String.eqb Ascii.eqb Bool.eqb]. apply IH. lia.
 Qed.
 
+(* breakOut to the name the scope being closed carries ends there *)
+Lemma break_own_f (t:string) (v:rvalue) s1 : t <> "" -> top_name s1 = t ->
+  match st_scopes s1 with
+  | sc' :: _ => if String.eqb (sc_name sc') t then (ONormal v, pop_scope s1) else (OBreak t v, pop_scope s1)
+  | [] => (OBreak t v, pop_scope s1) end = (ONormal v, pop_scope s1).
+Proof.
+  unfold top_name. destruct (st_scopes s1) as [|sc' l]; intros NT TN; [exfalso; apply NT; symmetry; exact TN|].
+  rewrite TN, String.eqb_refl. reflexivity.
+Qed.
+(* breakOut to a name the scope being closed does not carry goes on outwards *)
+Lemma break_pass_f (t:string) (v:rvalue) s1 : top_name s1 <> t ->
+  match st_scopes s1 with
+  | sc' :: _ => if String.eqb (sc_name sc') t then (ONormal v, pop_scope s1) else (OBreak t v, pop_scope s1)
+  | [] => (OBreak t v, pop_scope s1) end = (OBreak t v, pop_scope s1).
+Proof.
+  unfold top_name. destruct (st_scopes s1) as [|sc' l]; intros TN; [reflexivity|].
+  destruct (String.eqb_spec (sc_name sc') t) as [E|_]; [contradiction|reflexivity].
+Qed.
+
 Theorem ref_runs_z :
   (forall s e v s', zev s e v s' -> exists f0, forall f, f0 <= f -> eval f s e = (ONormal v, s')) /\
   (forall s l vs s', zevs s l vs s' -> exists f0, forall f, f0 <= f -> forall acc, go_arr f s l acc = (ONormal (RArr (rev acc ++ vs)), s')) /\
@@ -3535,7 +4246,14 @@ Theorem ref_runs_z :
   (forall cond body s first v s', zwhile cond body s first v s' -> exists f0 k0, forall f, f0 <= f -> forall k, k0 <= k -> forall n, first = Nat.eqb n 0 ->
       while_loop_f f cond body k s n = (ONormal v, s')) /\
   (forall s reg b x s', zthrow s reg b x s' -> exists f0, forall f, f0 <= f -> eval_block f s b reg = (OThrow x, s')) /\
-  (forall s reg b t v s', zbreak s reg b t v s' -> exists f0, forall f, f0 <= f -> eval_block f s b reg = (OBreak t v, s')).
+  (forall s reg b t v s', zbreak s reg b t v s' -> exists f0, forall f, f0 <= f -> eval_block f s b reg = (OBreak t v, s')) /\
+  (forall s e a s', zloopleave s e a s' -> exists f0, forall f, f0 <= f -> eval f s e = (oa a, s')) /\
+  (forall k s arr i body acc a s', zileave k s arr i body acc a s' -> exists f0, forall f, f0 <= f -> forall kk, length arr < kk ->
+      iterate_f f kk s arr i body (kwith k) acc (kstep k) = (oa a, s')) /\
+  (forall var to st s x first body a s', zfleave var to st s x first body a s' -> exists f0 k0, forall f, f0 <= f -> forall k, k0 <= k ->
+      for_loop_f f var to st body k s x first = (oa a, s')) /\
+  (forall cond body s first a s', zwleave cond body s first a s' -> exists f0 k0, forall f, f0 <= f -> forall k, k0 <= k -> forall n, first = Nat.eqb n 0 ->
+      while_loop_f f cond body k s n = (oa a, s')).
 Proof.
   apply z_ind.
   - (* pure *) intros s e v HE. exists (esize e). intros f L. exact (proj2 (proj1 (pure_ref _ _) e v HE) s f (renv_ok_of s) L).
@@ -3752,6 +4470,10 @@ Proof.
     intros f L [|kk] LK; [lia|]. cbn [iterate_f]. fold (iterate_f f). rewrite kvars_iter.
     change (push_scope s (plain_scope_f s (kvars k i x))) with (enter s (kvars k i x)).
     rewrite (IHb f) by lia. reflexivity.
+  - (* a round left by breakOut to its own name *) intros k s x rest0 i body acc t v s1 HK [fk IHk] TN. exists fk.
+    intros f L [|kk] LK; [lia|]. cbn [iterate_f]. fold (iterate_f f). rewrite kvars_iter.
+    change (push_scope s (plain_scope_f s (kvars k i x))) with (enter s (kvars k i x)).
+    rewrite (IHk f) by lia. exact (break_own_f t v s1 (proj1 (zbreak_facts _ _ _ _ _ _ HK)) TN).
   - (* a round of for, then the rest *) intros var to st s x first body reg s1 y acc' s' HB [fb IHb] HV TV BY HI (fi & ki & IHi). exists (fb + fi), (S ki).
     intros f L [|k] LK; [lia|]. cbn [for_loop_f]. fold (for_loop_f f var to st body).
     change (push_scope s (plain_scope_f s [(lower var, RNum x)])) with (enter s [(lower var, RNum x)]).
@@ -3766,6 +4488,10 @@ Proof.
     intros f L [|k] LK; [lia|]. cbn [for_loop_f]. fold (for_loop_f f var to st body).
     change (push_scope s (plain_scope_f s [(lower var, RNum x)])) with (enter s [(lower var, RNum x)]).
     rewrite (IHb f) by lia. reflexivity.
+  - (* a round of for left by breakOut to its own name *) intros var to st s x first body t v s1 HK [fk IHk] TN. exists fk, 1.
+    intros f L [|k] LK; [lia|]. cbn [for_loop_f]. fold (for_loop_f f var to st body).
+    change (push_scope s (plain_scope_f s [(lower var, RNum x)])) with (enter s [(lower var, RNum x)]).
+    rewrite (IHk f) by lia. exact (break_own_f t v s1 (proj1 (zbreak_facts _ _ _ _ _ _ HK)) TN).
   - (* while: the condition comes out false *) intros cond body s first s1 HC [fc IHc]. exists fc, 1.
     intros f L [|k] LK n Hn; [lia|]. cbn [while_loop_f]. fold (while_loop_f f cond body).
     change (push_scope s (plain_scope_f s [])) with (enter s []).
@@ -3786,6 +4512,16 @@ Proof.
     change (push_scope s (plain_scope_f s [])) with (enter s []).
     replace (match n with O => RNil | _ => RNone end) with (if first then RNil else RNone) by (subst first; destruct n; reflexivity).
     rewrite (IHc f) by lia. cbn [oc]. rewrite (IHb f) by lia. reflexivity.
+  - (* while: the condition is left by breakOut to the loop's own name *) intros cond body s first t v s1 HK [fk IHk] TN. exists fk, 1.
+    intros f L [|k] LK n Hn; [lia|]. cbn [while_loop_f]. fold (while_loop_f f cond body).
+    change (push_scope s (plain_scope_f s [])) with (enter s []).
+    replace (match n with O => RNil | _ => RNone end) with (if first then RNil else RNone) by (subst first; destruct n; reflexivity).
+    rewrite (IHk f) by lia. exact (break_own_f t v s1 (proj1 (zbreak_facts _ _ _ _ _ _ HK)) TN).
+  - (* while: the body is left by breakOut to the loop's own name *) intros cond body s first s1 t v s2 HC [fc IHc] HK [fk IHk] TN. exists (fc + fk), 1.
+    intros f L [|k] LK n Hn; [lia|]. cbn [while_loop_f]. fold (while_loop_f f cond body).
+    change (push_scope s (plain_scope_f s [])) with (enter s []).
+    replace (match n with O => RNil | _ => RNone end) with (if first then RNil else RNone) by (subst first; destruct n; reflexivity).
+    rewrite (IHc f) by lia. cbn [oc]. rewrite (IHk f) by lia. exact (break_own_f t v s2 (proj1 (zbreak_facts _ _ _ _ _ _ HK)) TN).
   - (* throw: a statement, then the rest *) intros s reg st reg1 s1 st2 rest x s' HS [fs IHs] HT [ft IHt]. exists (S (fs + ft)). intros [|f] L; [lia|].
     rewrite (IHs f) by lia. unfold cont. apply IHt. lia.
   - (* throw v *) intros s reg n e v s1 rest HN NL HE [fe IHe] NNv. exists (S (S (S fe))). intros [|f] L; [lia|]. cbn [eval_block].
@@ -3820,6 +4556,8 @@ Proof.
     destruct f as [|f]; [lia|].
     rewrite eval_binary_catch. change (push_scope s2 (plain_scope_f s2 [])) with (enter s2 []). rewrite (IHx f) by lia.
     rewrite catch_after_throw, (IHy f) by lia. rewrite handler_after_throw. reflexivity.
+  - (* a loop standing as a statement is left by a throw *) intros s reg e y s3 rest HL [fl IHl]. exists (S fl). intros [|f] L; [lia|].
+    cbn [eval_block]. rewrite (IHl f) by lia. reflexivity.
   - (* breakOut: a statement, then the rest *) intros s reg st reg1 s1 st2 rest t v s' HS [fs IHs] HK [fk IHk]. exists (S (fs + fk)). intros [|f] L; [lia|].
     rewrite (IHs f) by lia. unfold cont. apply IHk. lia.
   - (* breakOut "t" *) intros s reg n e t s1 rest HN NL HE [fe IHe] NT. exists (S (S (S fe))). intros [|f] L; [lia|]. cbn [eval_block].
@@ -3848,4 +4586,78 @@ Proof.
     change (eval_binary (S f) s2 "then" (RIf c) (RArr [RCode x0; RCode y0]) (in_scope_f (S f)) plain_scope_f)
       with (in_scope_f (S f) s2 (plain_scope_f s2 []) (if c then x0 else y0)).
     rewrite (in_scope_break_pass (S f) s2 _ (if c then x0 else y0) t v s3) by (try (apply IHk; lia); exact TN). reflexivity.
+  - (* a loop standing as a statement is left by breakOut *) intros s reg e t v s3 rest HL [fl IHl]. exists (S fl). intros [|f] L; [lia|].
+    cbn [eval_block]. rewrite (IHl f) by lia. reflexivity.
+  - (* forEach / count is left *) intros s n a x body x0 arr k s1 s2 ab s3 HN HK LF HA [fa IHa] HX [fx IHx] HI [fi IHi]. exists (S (S (fa + fx + fi))).
+    intros [|f] L; [lia|]. rewrite eval_S_binary, (IHa f), (IHx f) by lia. rewrite <- HN.
+    destruct f as [|f]; [lia|].
+    change (eval_binary (S f) s2 (kname k) (RCode body) (RArr (x0 :: arr)) (in_scope_f (S f)) plain_scope_f = (oa ab, s3)).
+    rewrite (eval_binary_loop_ca f (S f) s2 k body _ HK). apply IHi; [lia|cbn; lia].
+  - (* apply / select / findIf is left *) intros s n a x body x0 arr k s1 s2 ab s3 HN HK LF HA [fa IHa] HX [fx IHx] HI [fi IHi]. exists (S (S (fa + fx + fi))).
+    intros [|f] L; [lia|]. rewrite eval_S_binary, (IHa f), (IHx f) by lia. rewrite <- HN.
+    destruct f as [|f]; [lia|].
+    change (eval_binary (S f) s2 (kname k) (RArr (x0 :: arr)) (RCode body) (in_scope_f (S f)) plain_scope_f = (oa ab, s3)).
+    rewrite (eval_binary_loop_ac f (S f) s2 k body _ HK). apply IHi; [lia|cbn; lia].
+  - (* for is left *) intros s n a b var fr to st body s1 s2 ab s3 HN HA [fa IHa] HB [fb IHb] HE LF HI (fi & ki & IHi). exists (S (S (fa + fb + fi + ki))).
+    intros [|f] L; [lia|]. rewrite eval_S_binary, (IHa f), (IHb f) by lia. rewrite HN.
+    destruct f as [|f]; [lia|].
+    transitivity (eval_binary (S f) s2 "do" (RFor var fr to st) (RCode body) (in_scope_f (S f)) plain_scope_f); [reflexivity|].
+    rewrite eval_binary_for, HE. apply IHi; lia.
+  - (* while is left *) intros s n a b cond body s1 s2 ab s3 HN HA [fa IHa] HB [fb IHb] LFc LFb HW (fw & kw & IHw). exists (S (S (fa + fb + fw + kw))).
+    intros [|f] L; [lia|]. rewrite eval_S_binary, (IHa f), (IHb f) by lia. rewrite HN.
+    destruct f as [|f]; [lia|].
+    destruct (leaf_first_cons _ LFc) as (st & crest & ->).
+    transitivity (eval_binary (S f) s2 "do" (RWhile (st :: crest)) (RCode body) (in_scope_f (S f)) plain_scope_f); [reflexivity|].
+    rewrite eval_binary_while. apply IHw; [lia|lia|reflexivity].
+  - (* loop over an array: a round, then the rest *) intros k s x rest0 i body acc reg s1 acc1 ab s' HB [fb IHb] KS KO HI [fi IHi]. exists (fb + fi).
+    intros f L [|kk] LK; [lia|]. cbn [iterate_f]. fold (iterate_f f). rewrite kvars_iter.
+    change (push_scope s (plain_scope_f s (kvars k i x))) with (enter s (kvars k i x)).
+    rewrite (IHb f) by lia. cbn [oc]. rewrite KS.
+    apply IHi; [lia|cbn in LK; lia].
+  - (* loop over an array: the round is left by a throw *) intros k s x rest0 i body acc y s1 HT [ft IHt]. exists ft.
+    intros f L [|kk] LK; [lia|]. cbn [iterate_f]. fold (iterate_f f). rewrite kvars_iter.
+    change (push_scope s (plain_scope_f s (kvars k i x))) with (enter s (kvars k i x)).
+    rewrite (IHt f) by lia. reflexivity.
+  - (* loop over an array: the round is left by breakOut *) intros k s x rest0 i body acc t v s1 HK [fk IHk] TN. exists fk.
+    intros f L [|kk] LK; [lia|]. cbn [iterate_f]. fold (iterate_f f). rewrite kvars_iter.
+    change (push_scope s (plain_scope_f s (kvars k i x))) with (enter s (kvars k i x)).
+    rewrite (IHk f) by lia. exact (break_pass_f t v s1 TN).
+  - (* for: a round, then the rest *) intros var to st s x first body reg s1 y ab s' HB [fb IHb] HV TV BY HI (fi & ki & IHi). exists (fb + fi), (S ki).
+    intros f L [|k] LK; [lia|]. cbn [for_loop_f]. fold (for_loop_f f var to st body).
+    change (push_scope s (plain_scope_f s [(lower var, RNum x)])) with (enter s [(lower var, RNum x)]).
+    rewrite (IHb f) by lia. cbn [oc]. unfold top_var in TV. destruct (st_scopes s1) as [|sc scs] eqn:ES; [discriminate TV|]. rewrite TV.
+    unfold beyond in BY. cbv zeta. rewrite BY. apply IHi; lia.
+  - (* for: the round is left by a throw *) intros var to st s x first body y s1 HT [ft IHt]. exists ft, 1.
+    intros f L [|k] LK; [lia|]. cbn [for_loop_f]. fold (for_loop_f f var to st body).
+    change (push_scope s (plain_scope_f s [(lower var, RNum x)])) with (enter s [(lower var, RNum x)]).
+    rewrite (IHt f) by lia. reflexivity.
+  - (* for: the round is left by breakOut *) intros var to st s x first body t v s1 HK [fk IHk] TN. exists fk, 1.
+    intros f L [|k] LK; [lia|]. cbn [for_loop_f]. fold (for_loop_f f var to st body).
+    change (push_scope s (plain_scope_f s [(lower var, RNum x)])) with (enter s [(lower var, RNum x)]).
+    rewrite (IHk f) by lia. exact (break_pass_f t v s1 TN).
+  - (* while: a round, then the rest *) intros cond body s first s1 reg s2 ab s' HC [fc IHc] HB [fb IHb] HW (fw & kw & IHw). exists (fc + fb + fw), (S kw).
+    intros f L [|k] LK n Hn; [lia|]. cbn [while_loop_f]. fold (while_loop_f f cond body).
+    change (push_scope s (plain_scope_f s [])) with (enter s []).
+    replace (match n with O => RNil | _ => RNone end) with (if first then RNil else RNone) by (subst first; destruct n; reflexivity).
+    rewrite (IHc f) by lia. cbn [oc]. rewrite (IHb f) by lia. cbn [oc]. apply IHw; [lia|lia|reflexivity].
+  - (* while: the condition is left by a throw *) intros cond body s first y s1 HT [ft IHt]. exists ft, 1.
+    intros f L [|k] LK n Hn; [lia|]. cbn [while_loop_f]. fold (while_loop_f f cond body).
+    change (push_scope s (plain_scope_f s [])) with (enter s []).
+    replace (match n with O => RNil | _ => RNone end) with (if first then RNil else RNone) by (subst first; destruct n; reflexivity).
+    rewrite (IHt f) by lia. reflexivity.
+  - (* while: the condition is left by breakOut *) intros cond body s first t v s1 HK [fk IHk] TN. exists fk, 1.
+    intros f L [|k] LK n Hn; [lia|]. cbn [while_loop_f]. fold (while_loop_f f cond body).
+    change (push_scope s (plain_scope_f s [])) with (enter s []).
+    replace (match n with O => RNil | _ => RNone end) with (if first then RNil else RNone) by (subst first; destruct n; reflexivity).
+    rewrite (IHk f) by lia. exact (break_pass_f t v s1 TN).
+  - (* while: the body is left by a throw *) intros cond body s first s1 y s2 HC [fc IHc] HT [ft IHt]. exists (fc + ft), 1.
+    intros f L [|k] LK n Hn; [lia|]. cbn [while_loop_f]. fold (while_loop_f f cond body).
+    change (push_scope s (plain_scope_f s [])) with (enter s []).
+    replace (match n with O => RNil | _ => RNone end) with (if first then RNil else RNone) by (subst first; destruct n; reflexivity).
+    rewrite (IHc f) by lia. cbn [oc]. rewrite (IHt f) by lia. reflexivity.
+  - (* while: the body is left by breakOut *) intros cond body s first s1 t v s2 HC [fc IHc] HK [fk IHk] TN. exists (fc + fk), 1.
+    intros f L [|k] LK n Hn; [lia|]. cbn [while_loop_f]. fold (while_loop_f f cond body).
+    change (push_scope s (plain_scope_f s [])) with (enter s []).
+    replace (match n with O => RNil | _ => RNone end) with (if first then RNil else RNone) by (subst first; destruct n; reflexivity).
+    rewrite (IHc f) by lia. cbn [oc]. rewrite (IHk f) by lia. exact (break_pass_f t v s2 TN).
 Qed.
